@@ -5,6 +5,1141 @@ From Sismic Require Import Base Chart Interp Bdd.
 Open Scope string_scope.
 Open Scope list_scope.
 
+
+(* ================================================================== small library *)
+Lemma mem_In : forall x l, mem x l = true <-> In x l.
+Proof.
+  induction l as [|y l IH]; cbn [mem]; [split; [discriminate|intros []]|].
+  unfold str_eqb. split.
+  - intro H. apply orb_true_iff in H. destruct H as [H|H].
+    + apply String.eqb_eq in H. left. congruence.
+    + right. apply IH, H.
+  - intros [H|H]; apply orb_true_iff.
+    + left. subst. apply String.eqb_refl.
+    + right. apply IH, H.
+Qed.
+
+Lemma mem_false_In : forall x l, mem x l = false <-> ~ In x l.
+Proof.
+  intros x l. split.
+  - intros H HI. apply mem_In in HI. congruence.
+  - intro H. destruct (mem x l) eqn:E; [|reflexivity]. exfalso. apply H, mem_In, E.
+Qed.
+
+Lemma existsb_str_In : forall x l, existsb (str_eqb x) l = true <-> In x l.
+Proof.
+  intros x l. rewrite existsb_exists. unfold str_eqb. split.
+  - intros [y [Hy E]]. apply String.eqb_eq in E. subst. exact Hy.
+  - intro H. exists x. split; [exact H|apply String.eqb_refl].
+Qed.
+
+Lemma in_flat_map_iff {A B} (f : A -> list B) (l : list A) (y : B) :
+  In y (flat_map f l) <-> exists x, In x l /\ In y (f x).
+Proof. apply in_flat_map. Qed.
+
+(* ================================================================== C19_testing *)
+Definition entered_in (steps : list macrostep) (n : name) : Prop :=
+  exists m mi, In m steps /\ In mi (snd m) /\ In n (ms_entered mi).
+Definition exited_in (steps : list macrostep) (n : name) : Prop :=
+  exists m mi, In m steps /\ In mi (snd m) /\ In n (ms_exited mi).
+
+Lemma state_is_entered_spec : forall steps n, state_is_entered steps n = true <-> entered_in steps n.
+Proof.
+  unfold entered_in. induction steps as [|s r IH]; intro n; cbn [state_is_entered].
+  - split; [discriminate|]. intros (m & mi & [] & _).
+  - destruct (mem n (macro_entered s)) eqn:E.
+    + split; [intros _|reflexivity]. apply mem_In in E. unfold macro_entered in E.
+      apply in_flat_map in E. destruct E as (mi & H1 & H2). exists s, mi. cbn. auto.
+    + rewrite IH. split.
+      * intros (m & mi & H1 & H2 & H3). exists m, mi. cbn. auto.
+      * intros (m & mi & [H1|H1] & H2 & H3).
+        -- subst m. apply mem_false_In in E. exfalso. apply E. unfold macro_entered.
+           apply in_flat_map. exists mi. auto.
+        -- exists m, mi. auto.
+Qed.
+
+Lemma state_is_exited_spec : forall steps n, state_is_exited steps n = true <-> exited_in steps n.
+Proof.
+  unfold exited_in. induction steps as [|s r IH]; intro n; cbn [state_is_exited].
+  - split; [discriminate|]. intros (m & mi & [] & _).
+  - destruct (mem n (macro_exited s)) eqn:E.
+    + split; [intros _|reflexivity]. apply mem_In in E. unfold macro_exited in E.
+      apply in_flat_map in E. destruct E as (mi & H1 & H2). exists s, mi. cbn. auto.
+    + rewrite IH. split.
+      * intros (m & mi & H1 & H2 & H3). exists m, mi. cbn. auto.
+      * intros (m & mi & [H1|H1] & H2 & H3).
+        -- subst m. apply mem_false_In in E. exfalso. apply E. unfold macro_exited.
+           apply in_flat_map. exists mi. auto.
+        -- exists m, mi. auto.
+Qed.
+
+(* "the event matches": name (None = any) and every provided parameter equals the attribute *)
+Definition ev_matches (n : option name) (ps : list (name * value)) (e : event) : Prop :=
+  match n with None => True | Some x => e_name e = x end /\
+  forall k v, In (k, v) ps -> attr_eqb (event_attr e k) v = true.
+
+Lemma params_match_spec : forall e ps,
+  params_match e ps = true <-> forall k v, In (k, v) ps -> attr_eqb (event_attr e k) v = true.
+Proof.
+  induction ps as [|[k v] r IH]; cbn [params_match].
+  - split; [intros _ k v []|reflexivity].
+  - destruct (attr_eqb (event_attr e k) v) eqn:E; cbn [negb].
+    + rewrite IH. split.
+      * intros H k' v' [H1|H1]; [inversion H1; subst; exact E|apply H, H1].
+      * intros H k' v' H1. apply H. right. exact H1.
+    + split; [discriminate|]. intro H. rewrite (H k v) in E; [discriminate|left; reflexivity].
+Qed.
+
+Lemma name_matches_spec : forall n e,
+  name_matches n e = true <-> match n with None => True | Some x => e_name e = x end.
+Proof.
+  intros [x|] e; cbn [name_matches]; [|tauto]. unfold str_eqb. apply String.eqb_eq.
+Qed.
+
+Lemma ev_matches_b : forall n ps e,
+  (name_matches n e && params_match e ps = true) <-> ev_matches n ps e.
+Proof.
+  intros. unfold ev_matches. rewrite andb_true_iff, name_matches_spec, params_match_spec. tauto.
+Qed.
+
+Lemma fired_among_spec : forall evs n ps,
+  fired_among evs n ps = true <-> exists e, In e evs /\ ev_matches n ps e.
+Proof.
+  induction evs as [|e r IH]; intros n ps; cbn [fired_among].
+  - split; [discriminate|intros (e & [] & _)].
+  - destruct (name_matches n e) eqn:E1; [destruct (params_match e ps) eqn:E2|].
+    + split; [intros _|reflexivity]. exists e. split; [left; reflexivity|].
+      apply ev_matches_b. rewrite E1, E2. reflexivity.
+    + rewrite IH. split.
+      * intros (e' & H1 & H2). exists e'. split; [right; exact H1|exact H2].
+      * intros (e' & [H1|H1] & H2); [subst e'|exists e'; auto].
+        apply ev_matches_b in H2. rewrite E1, E2 in H2. discriminate.
+    + rewrite IH. split.
+      * intros (e' & H1 & H2). exists e'. split; [right; exact H1|exact H2].
+      * intros (e' & [H1|H1] & H2); [subst e'|exists e'; auto].
+        apply ev_matches_b in H2. rewrite E1 in H2. discriminate.
+Qed.
+
+Definition fired_in (steps : list macrostep) (n : option name) (ps : list (name * value)) : Prop :=
+  exists m mi e, In m steps /\ In mi (snd m) /\ In e (ms_sent mi) /\ ev_matches n ps e.
+
+Lemma event_is_fired_spec : forall steps n ps, event_is_fired steps n ps = true <-> fired_in steps n ps.
+Proof.
+  unfold fired_in. induction steps as [|s r IH]; intros n ps; cbn [event_is_fired].
+  - split; [discriminate|]. intros (m & mi & e & [] & _).
+  - destruct (fired_among (macro_sent s) n ps) eqn:E.
+    + split; [intros _|reflexivity]. apply fired_among_spec in E. destruct E as (e & H1 & H2).
+      unfold macro_sent in H1. apply in_flat_map in H1. destruct H1 as (mi & H3 & H4).
+      exists s, mi, e. cbn. auto.
+    + rewrite IH. split.
+      * intros (m & mi & e & H1 & H2). exists m, mi, e. cbn. tauto.
+      * intros (m & mi & e & [H1|H1] & H2 & H3 & H4); [subst m|exists m, mi, e; auto].
+        assert (X : fired_among (macro_sent s) n ps = true).
+        { apply fired_among_spec. exists e. split; [|exact H4]. unfold macro_sent.
+          apply in_flat_map. exists mi. auto. }
+        rewrite X in E. discriminate.
+Qed.
+
+(* MacroStep.event: the event of the first micro step that has one *)
+Lemma macro_event_spec : forall steps e,
+  macro_event steps = Some e <->
+  exists pre mi post, steps = pre ++ mi :: post /\ ms_event mi = Some e /\
+                      forall x, In x pre -> ms_event x = None.
+Proof.
+  induction steps as [|s r IH]; intro e; cbn [macro_event].
+  - split; [discriminate|]. intros (pre & mi & post & H & _). destruct pre; discriminate.
+  - destruct (ms_event s) as [e0|] eqn:E.
+    + split.
+      * intro H. inversion H; subst. exists [], s, r. cbn. split; [reflexivity|]. split; [exact E|intros x []].
+      * intros (pre & mi & post & H1 & H2 & H3). destruct pre as [|p pre]; cbn in H1; inversion H1; subst.
+        -- congruence.
+        -- rewrite (H3 p) in E; [discriminate|left; reflexivity].
+    + rewrite IH. split.
+      * intros (pre & mi & post & H1 & H2 & H3). exists (s :: pre), mi, post. subst r. cbn.
+        split; [reflexivity|]. split; [exact H2|]. intros x [Hx|Hx]; [subst; exact E|apply H3, Hx].
+      * intros (pre & mi & post & H1 & H2 & H3). destruct pre as [|p pre]; cbn in H1; inversion H1; subst.
+        -- congruence.
+        -- exists pre, mi, post. split; [reflexivity|]. split; [exact H2|]. intros x Hx. apply H3. right. exact Hx.
+Qed.
+
+Definition consumed_in (steps : list macrostep) (n : option name) (ps : list (name * value)) : Prop :=
+  exists m e, In m steps /\ macro_event (snd m) = Some e /\ ev_matches n ps e.
+
+Lemma event_is_consumed_spec : forall steps n ps,
+  event_is_consumed steps n ps = true <-> consumed_in steps n ps.
+Proof.
+  unfold consumed_in. induction steps as [|s r IH]; intros n ps; cbn [event_is_consumed].
+  - split; [discriminate|]. intros (m & e & [] & _).
+  - assert (REST : (exists m e, In m r /\ macro_event (snd m) = Some e /\ ev_matches n ps e) ->
+                   exists m e, In m (s :: r) /\ macro_event (snd m) = Some e /\ ev_matches n ps e).
+    { intros (m & e & H1 & H2). exists m, e. cbn. tauto. }
+    destruct (macro_event (snd s)) as [e0|] eqn:E.
+    + destruct (name_matches n e0 && params_match e0 ps) eqn:M.
+      * apply andb_true_iff in M as M'. destruct M' as [M1 M2]. rewrite M1, M2.
+        split; [intros _|reflexivity]. exists s, e0. split; [left; reflexivity|]. split; [exact E|].
+        apply ev_matches_b. exact M.
+      * assert (X : (if name_matches n e0 then if params_match e0 ps then true else event_is_consumed r n ps
+                     else event_is_consumed r n ps) = event_is_consumed r n ps).
+        { destruct (name_matches n e0); [destruct (params_match e0 ps); [discriminate|]|]; reflexivity. }
+        rewrite X, IH. split; [exact REST|].
+        intros (m & e & [H1|H1] & H2 & H3); [subst m|exists m, e; auto].
+        rewrite E in H2. inversion H2; subst. apply ev_matches_b in H3. rewrite H3 in M. discriminate.
+    + rewrite IH. split; [exact REST|].
+      intros (m & e & [H1|H1] & H2 & H3); [subst m; rewrite E in H2; discriminate|exists m, e; auto].
+Qed.
+
+Lemma macro_transitions_In : forall steps t,
+  In t (macro_transitions steps) <-> exists mi, In mi steps /\ ms_trans mi = Some t.
+Proof.
+  induction steps as [|s r IH]; intro t; cbn [macro_transitions].
+  - split; [intros []|intros (mi & [] & _)].
+  - destruct (ms_trans s) as [t0|] eqn:E.
+    + cbn [In]. rewrite IH. split.
+      * intros [H|(mi & H1 & H2)]; [subst; exists s; cbn; auto|exists mi; cbn; auto].
+      * intros (mi & [H1|H1] & H2); [subst; left; congruence|right; exists mi; auto].
+    + rewrite IH. split.
+      * intros (mi & H1 & H2). exists mi. cbn. auto.
+      * intros (mi & [H1|H1] & H2); [subst; congruence|exists mi; auto].
+Qed.
+
+Definition processed_in (teq : nat -> nat -> bool) (steps : list macrostep) (t : option nat) : Prop :=
+  exists m mi u, In m steps /\ In mi (snd m) /\ ms_trans mi = Some u /\
+                 match t with None => True | Some x => teq x u = true end.
+
+Lemma transition_is_processed_spec : forall teq steps t,
+  transition_is_processed teq steps t = true <-> processed_in teq steps t.
+Proof.
+  unfold processed_in. intros teq. induction steps as [|s r IH]; intro t; cbn [transition_is_processed].
+  - split; [discriminate|]. intros (m & mi & u & [] & _).
+  - assert (HERE : forall u, In u (macro_transitions (snd s)) ->
+                   match t with None => True | Some x => teq x u = true end ->
+                   exists m mi u, In m (s :: r) /\ In mi (snd m) /\ ms_trans mi = Some u /\
+                                  match t with None => True | Some x => teq x u = true end).
+    { intros u Hu Ht. apply macro_transitions_In in Hu. destruct Hu as (mi & H1 & H2).
+      exists s, mi, u. cbn. auto. }
+    assert (REST : (exists m mi u, In m r /\ In mi (snd m) /\ ms_trans mi = Some u /\
+                                   match t with None => True | Some x => teq x u = true end) ->
+                   exists m mi u, In m (s :: r) /\ In mi (snd m) /\ ms_trans mi = Some u /\
+                                  match t with None => True | Some x => teq x u = true end).
+    { intros (m & mi & u & H1 & H2). exists m, mi, u. cbn. tauto. }
+    destruct t as [x|].
+    + destruct (existsb (teq x) (macro_transitions (snd s))) eqn:E.
+      * split; [intros _|reflexivity]. apply existsb_exists in E. destruct E as (u & H1 & H2).
+        apply (HERE u H1 H2).
+      * rewrite IH. split; [exact REST|].
+        intros (m & mi & u & [H1|H1] & H2 & H3 & H4); [subst m|exists m, mi, u; auto].
+        assert (X : existsb (teq x) (macro_transitions (snd s)) = true).
+        { apply existsb_exists. exists u. split; [|exact H4]. apply macro_transitions_In. exists mi. auto. }
+        rewrite X in E. discriminate.
+    + destruct (macro_transitions (snd s)) as [|u0 l] eqn:E; cbn [length Nat.ltb Nat.leb].
+      * rewrite IH. split; [exact REST|].
+        intros (m & mi & u & [H1|H1] & H2 & H3 & H4); [subst m|exists m, mi, u; auto].
+        assert (X : In u (macro_transitions (snd s))) by (apply macro_transitions_In; exists mi; auto).
+        rewrite E in X. destruct X.
+      * split; [intros _|reflexivity]. apply (HERE u0); [first [left; reflexivity|rewrite E; left; reflexivity]|exact I].
+Qed.
+
+Definition any_sent (steps : list macrostep) : Prop :=
+  exists m mi e, In m steps /\ In mi (snd m) /\ In e (ms_sent mi).
+
+Lemma no_event_is_fired_spec : forall steps, no_event_is_fired steps = true <-> ~ any_sent steps.
+Proof.
+  unfold any_sent. induction steps as [|s r IH]; cbn [no_event_is_fired].
+  - split; [intros _ (m & mi & e & [] & _)|reflexivity].
+  - destruct (macro_sent s) as [|e0 l] eqn:E; cbn [length Nat.ltb Nat.leb].
+    + rewrite IH. split.
+      * intros H (m & mi & e & [H1|H1] & H2 & H3).
+        -- subst m. assert (X : In e (macro_sent s)) by (unfold macro_sent; apply in_flat_map; exists mi; auto).
+           rewrite E in X. destruct X.
+        -- apply H. exists m, mi, e. auto.
+      * intros H (m & mi & e & H1 & H2). apply H. exists m, mi, e. cbn. tauto.
+    + split; [discriminate|]. intro H. exfalso. apply H.
+      assert (X : In e0 (macro_sent s)) by (rewrite E; left; reflexivity).
+      unfold macro_sent in X. apply in_flat_map in X. destruct X as (mi & H1 & H2).
+      exists s, mi, e0. cbn. auto.
+Qed.
+
+(* C19_testing: every predicate of sismic/testing.py (and the loop of `no event is fired`) is
+   equivalent to its declarative reading over the micro steps of the given macro steps *)
+Theorem C19_testing :
+  forall (teq : nat -> nat -> bool) (steps : list macrostep),
+    (forall n, state_is_entered steps n = true <-> entered_in steps n) /\
+    (forall n, state_is_exited steps n = true <-> exited_in steps n) /\
+    (forall n ps, event_is_fired steps n ps = true <-> fired_in steps n ps) /\
+    (forall n ps, event_is_consumed steps n ps = true <-> consumed_in steps n ps) /\
+    (forall t, transition_is_processed teq steps t = true <-> processed_in teq steps t) /\
+    (no_event_is_fired steps = true <-> ~ any_sent steps).
+Proof.
+  intros teq steps. repeat split;
+    try apply state_is_entered_spec; try apply state_is_exited_spec; try apply event_is_fired_spec;
+    try apply event_is_consumed_spec; try apply transition_is_processed_spec; try apply no_event_is_fired_spec.
+Qed.
+
+(* non-vacuity: a macro step in which the predicates hold resp. fail *)
+Example C19_testing_nonvacuous :
+  let ev := mkEvent Internal "out" [("v", VInt 1)] in
+  let m : macrostep := (3%Z, [mkMicro (Some (mkEvent External "go" [])) (Some 0%nat) ["b"] ["a"] [ev]]) in
+  state_is_entered [m] "b" = true /\ state_is_entered [m] "a" = false /\
+  state_is_exited [m] "a" = true /\
+  event_is_fired [m] (Some "out") [("v", VBool true)] = true /\       (* True == 1 *)
+  event_is_fired [m] (Some "out") [("v", VInt 2)] = false /\
+  event_is_fired [m] (Some "out") [("w", VNone)] = true /\            (* absent attribute is None *)
+  event_is_consumed [m] (Some "go") [] = true /\
+  transition_is_processed Nat.eqb [m] (Some 0%nat) = true /\
+  transition_is_processed Nat.eqb [m] (Some 1%nat) = false /\
+  no_event_is_fired [m] = false.
+Proof. vm_compute. repeat split; reflexivity. Qed.
+
+(* ================================================================== parameters dictionary *)
+Lemma lookup_app {V} (k : name) (a b : list (name * V)) :
+  lookup k (a ++ b) = match lookup k a with Some v => Some v | None => lookup k b end.
+Proof.
+  induction a as [|[k' v'] a IH]; cbn [lookup app]; [reflexivity|].
+  destruct (str_eqb k k'); [reflexivity|exact IH].
+Qed.
+
+Lemma lookup_dset_eqb {V} (k k' : name) (v : V) d :
+  lookup k (dset k' v d) = if str_eqb k k' then Some v else lookup k d.
+Proof.
+  induction d as [|[k2 v2] d IH]; cbn [dset lookup].
+  - destruct (str_eqb k k'); reflexivity.
+  - destruct (str_eqb k' k2) eqn:E; cbn [lookup].
+    + unfold str_eqb in *. apply String.eqb_eq in E. subst k2.
+      destruct (String.eqb k k'); reflexivity.
+    + destruct (str_eqb k k2) eqn:E2.
+      * unfold str_eqb in *. apply String.eqb_eq in E2. subst k2.
+        rewrite String.eqb_sym in E. rewrite E. reflexivity.
+      * exact IH.
+Qed.
+
+Lemma keys_dset {V} (k : name) (v : V) d :
+  map fst (dset k v d) = if mem k (map fst d) then map fst d else map fst d ++ [k].
+Proof.
+  induction d as [|[k2 v2] d IH]; cbn [dset map fst mem app]; [reflexivity|].
+  destruct (str_eqb k k2) eqn:E; cbn [orb map fst].
+  - unfold str_eqb in E. apply String.eqb_eq in E. subst. reflexivity.
+  - rewrite IH. destruct (mem k (map fst d)); reflexivity.
+Qed.
+
+Lemma NoDup_app_snoc {A} (l : list A) (x : A) : NoDup l -> ~ In x l -> NoDup (l ++ [x]).
+Proof.
+  induction l as [|y l IH]; cbn [app]; intros H1 H2.
+  - constructor; [intros []|constructor].
+  - inversion H1; subst. constructor.
+    + intro H. apply in_app_or in H. destruct H as [H|[H|[]]]; [contradiction|].
+      subst. apply H2. left. reflexivity.
+    + apply IH; [assumption|]. intro H. apply H2. right. exact H.
+Qed.
+
+Lemma nodup_dset {V} (k : name) (v : V) d : NoDup (map fst d) -> NoDup (map fst (dset k v d)).
+Proof.
+  intro H. rewrite keys_dset. destruct (mem k (map fst d)) eqn:E; [exact H|].
+  apply mem_false_In in E. apply NoDup_app_snoc; assumption.
+Qed.
+
+Lemma lookup_In_nodup {V} (k : name) (v : V) d :
+  NoDup (map fst d) -> (In (k, v) d <-> lookup k d = Some v).
+Proof.
+  induction d as [|[k2 v2] d IH]; cbn [map fst lookup In]; intro H.
+  - split; [intros []|discriminate].
+  - inversion H as [|? ? H1 H2]; subst. destruct (str_eqb k k2) eqn:E.
+    + unfold str_eqb in E. apply String.eqb_eq in E. subst k2. split.
+      * intros [X|X]; [inversion X; reflexivity|]. exfalso. apply H1.
+        apply in_map_iff. exists (k, v). auto.
+      * intro X. inversion X. left. reflexivity.
+    + rewrite <- (IH H2). split.
+      * intros [X|X]; [|exact X]. inversion X; subst. unfold str_eqb in E. rewrite String.eqb_refl in E. discriminate.
+      * intro X. right. exact X.
+Qed.
+
+Definition bp (l d : list (name * value)) : list (name * value) :=
+  fold_left (fun d kv => dset (fst kv) (snd kv) d) l d.
+
+Lemma bp_lookup : forall l d k,
+  lookup k (bp l d) = match lookup k (rev l) with Some v => Some v | None => lookup k d end.
+Proof.
+  induction l as [|[k1 v1] l IH]; intros d k; cbn [bp fold_left rev]; [reflexivity|].
+  fold (bp l (dset k1 v1 d)). rewrite IH, lookup_app. cbn [fst snd lookup].
+  destruct (lookup k (rev l)); [reflexivity|]. rewrite lookup_dset_eqb.
+  destruct (str_eqb k k1); reflexivity.
+Qed.
+
+Lemma bp_nodup : forall l d, NoDup (map fst d) -> NoDup (map fst (bp l d)).
+Proof.
+  induction l as [|[k1 v1] l IH]; intros d H; cbn [bp fold_left]; [exact H|].
+  apply IH. apply nodup_dset. exact H.
+Qed.
+
+Lemma build_params_bp : forall tbl inl_, build_params tbl inl_ = bp (bindings tbl inl_) [].
+Proof.
+  intros tbl [[k v]|]; unfold build_params, bindings, bp.
+  - rewrite fold_left_app. reflexivity.
+  - rewrite app_nil_r. reflexivity.
+Qed.
+
+(* the dictionary steps.py builds binds k to v iff (k, v) is the LAST binding of k *)
+Lemma build_params_spec : forall tbl inl_ k v,
+  In (k, v) (build_params tbl inl_) <-> last_binding k (bindings tbl inl_) = Some v.
+Proof.
+  intros. rewrite build_params_bp. rewrite lookup_In_nodup by (apply bp_nodup; constructor).
+  rewrite bp_lookup. unfold last_binding. cbn [lookup].
+  destruct (lookup k (rev (bindings tbl inl_))); split; intro H; try exact H; discriminate.
+Qed.
+
+(* ================================================================== then steps = fact *)
+Lemma of_bool_passed : forall b, of_bool b = Passed <-> b = true.
+Proof. intros [|]; cbn; split; intro H; try reflexivity; discriminate. Qed.
+
+Lemma negb_true_not : forall b (P : Prop), (b = true <-> P) -> (negb b = true <-> ~ P).
+Proof.
+  intros b P H. destruct b; cbn; split; intro X; try discriminate; try reflexivity.
+  - exfalso. apply X, H. reflexivity.
+  - intro HP. apply H in HP. discriminate.
+Qed.
+
+Lemma lookup_Some_In_keys {V} (k : name) (d : list (name * V)) v : lookup k d = Some v -> In k (map fst d).
+Proof.
+  induction d as [|[k2 v2] d IH]; cbn [lookup map fst In]; [discriminate|].
+  destruct (str_eqb k k2) eqn:E; intro H.
+  - left. unfold str_eqb in E. apply String.eqb_eq in E. congruence.
+  - right. apply IH, H.
+Qed.
+
+Lemma in_all_micro : forall blk mi, In mi (all_micro blk) <-> exists m, In m blk /\ In mi (snd m).
+Proof. intros. unfold all_micro. apply in_flat_map. Qed.
+
+Lemma in_all_sent : forall blk e, In e (all_sent blk) <-> sent_in blk e.
+Proof.
+  intros. unfold all_sent, sent_in. rewrite in_flat_map. split.
+  - intros (mi & H1 & H2). apply in_all_micro in H1. destruct H1 as (m & H3 & H4). exists m, mi. auto.
+  - intros (m & mi & H1 & H2 & H3). exists mi. split; [apply in_all_micro; exists m; auto|exact H3].
+Qed.
+
+Section ModelProofs.
+  Variable I : Type.
+  Variable i_queue : event -> I -> I.
+  Variable i_advance : Q -> I -> I.
+  Variable i_execute : I -> I * option (list macrostep).
+  Variable i_config : I -> list name.
+  Variable i_final : I -> bool.
+  Variable i_ctx : I -> list (name * value).
+  Variable i_eval : I -> string -> option bool.
+  Variable states : list name.
+
+  Notation Fact := (fact I i_config i_final i_ctx i_eval).
+  Notation FactB := (fact_b I i_config i_final i_ctx i_eval).
+  Notation EvalThen := (eval_then I i_config i_final i_ctx i_eval states).
+  Notation RunAct := (run_act I i_queue i_advance i_execute).
+  Notation RunThen := (run_then I i_config i_final i_ctx i_eval states).
+  Notation RunStep := (run_step I i_queue i_advance i_execute i_config i_final i_ctx i_eval states).
+  Notation RunSteps := (run_steps I i_queue i_advance i_execute i_config i_final i_ctx i_eval states).
+  Notation RunScenario := (run_scenario I i_queue i_advance i_execute i_config i_final i_ctx i_eval states).
+  Notation AfterStep := (after_step I i_execute).
+
+  Lemma fired_fact : forall blk n tbl inl_ (i : I),
+    fired_in blk (Some n) (build_params tbl inl_) <-> Fact (TFired n tbl inl_) blk i.
+  Proof.
+    intros. cbn [fact]. unfold fired_in, ev_matches, sent_in. split.
+    - intros (m & mi & e & H1 & H2 & H3 & H4 & H5). exists e. split; [exists m, mi; auto|]. split; [exact H4|].
+      intros k v Hk. apply H5. apply build_params_spec. exact Hk.
+    - intros (e & (m & mi & H1 & H2 & H3) & H4 & H5). exists m, mi, e. repeat split; try assumption.
+      intros k v Hk. apply H5. apply build_params_spec. exact Hk.
+  Qed.
+
+  (* steps.py + testing.py: a then step whose state name exists passes iff its fact holds *)
+  Lemma then_fact : forall t tr i, states_ok states t = true -> (EvalThen t tr i = Passed <-> Fact t tr i).
+  Proof.
+    intros t tr i Hs. destruct t; cbn [states_ok] in Hs; cbn [eval_then fact]; try rewrite Hs.
+    - rewrite of_bool_passed. apply state_is_entered_spec.
+    - rewrite of_bool_passed. apply negb_true_not, state_is_entered_spec.
+    - rewrite of_bool_passed. apply state_is_exited_spec.
+    - rewrite of_bool_passed. apply negb_true_not, state_is_exited_spec.
+    - rewrite of_bool_passed. apply mem_In.
+    - rewrite of_bool_passed. apply negb_true_not, mem_In.
+    - rewrite of_bool_passed, event_is_fired_spec. apply (fired_fact tr ev table inline i).
+    - rewrite of_bool_passed. apply negb_true_not. rewrite event_is_fired_spec.
+      unfold fired_in, ev_matches, sent_in. split.
+      + intros (m & mi & e & H1 & H2 & H3 & H4 & _). exists e. split; [exists m, mi; auto|exact H4].
+      + intros (e & (m & mi & H1 & H2 & H3) & H4). exists m, mi, e. repeat split; try assumption. intros k v [].
+    - rewrite of_bool_passed, no_event_is_fired_spec. unfold any_sent, sent_in. split; intros H X; apply H.
+      + destruct X as (e & m & mi & H1). exists m, mi, e. exact H1.
+      + destruct X as (m & mi & e & H1). exists e, m, mi. exact H1.
+    - destruct (lookup x (i_ctx i)) as [cur|].
+      + rewrite of_bool_passed. split; [intro H; exists cur; auto|intros (c & H1 & H2); congruence].
+      + split; [discriminate|intros (c & H1 & _); discriminate].
+    - destruct (lookup x (i_ctx i)) as [cur|].
+      + rewrite of_bool_passed. split.
+        * intro H. exists cur. split; [reflexivity|]. destruct (py_eqb cur v); [discriminate|reflexivity].
+        * intros (c & H1 & H2). inversion H1; subst. rewrite H2. reflexivity.
+      + split; [discriminate|intros (c & H1 & _); discriminate].
+    - destruct (i_eval i c) as [[|]|]; cbn; split; intro H; try reflexivity; try discriminate.
+    - destruct (i_eval i c) as [[|]|]; cbn; split; intro H; try reflexivity; try discriminate.
+    - apply of_bool_passed.
+    - rewrite of_bool_passed. destruct (i_final i); cbn; split; intro H; try reflexivity; discriminate.
+  Qed.
+
+  Lemma existsb_micro (f : microstep -> list name) blk n :
+    existsb (fun mi => existsb (str_eqb n) (f mi)) (all_micro blk) = true <->
+    exists m mi, In m blk /\ In mi (snd m) /\ In n (f mi).
+  Proof.
+    rewrite existsb_exists. split.
+    - intros (mi & H1 & H2). apply in_all_micro in H1. destruct H1 as (m & H3 & H4).
+      apply existsb_str_In in H2. exists m, mi. auto.
+    - intros (m & mi & H1 & H2 & H3). exists mi. split; [apply in_all_micro; exists m; auto|].
+      apply existsb_str_In. exact H3.
+  Qed.
+
+  (* the decidable checker evaluated by the harness on the implementation's macro steps *)
+  Lemma fact_b_sound : forall t blk i, FactB t blk i = true <-> Fact t blk i.
+  Proof.
+    intros t blk i. destruct t; cbn [fact_b fact].
+    - apply existsb_micro.
+    - apply negb_true_not, existsb_micro.
+    - apply existsb_micro.
+    - apply negb_true_not, existsb_micro.
+    - apply existsb_str_In.
+    - apply negb_true_not, existsb_str_In.
+    - rewrite existsb_exists. split.
+      + intros (e & H1 & H2). apply andb_true_iff in H2. destruct H2 as [H2 H3].
+        exists e. split; [apply in_all_sent, H1|]. split; [apply String.eqb_eq, H2|].
+        intros k v Hk. rewrite forallb_forall in H3.
+        assert (X : In k (keys_of (bindings table inline))).
+        { unfold last_binding in Hk. apply lookup_Some_In_keys in Hk. unfold keys_of.
+          rewrite map_rev in Hk. apply in_rev in Hk. exact Hk. }
+        specialize (H3 k X). rewrite Hk in H3. exact H3.
+      + intros (e & H1 & H2 & H3). exists e. split; [apply in_all_sent, H1|]. apply andb_true_iff.
+        split; [apply String.eqb_eq, H2|]. apply forallb_forall. intros k _.
+        destruct (last_binding k (bindings table inline)) as [v|] eqn:E; [apply H3, E|reflexivity].
+    - apply negb_true_not. rewrite existsb_exists. split.
+      + intros (e & H1 & H2). exists e. split; [apply in_all_sent, H1|apply String.eqb_eq, H2].
+      + intros (e & H1 & H2). exists e. split; [apply in_all_sent, H1|apply String.eqb_eq, H2].
+    - destruct (all_sent blk) as [|e l] eqn:E.
+      + split; [intros _ (e & H)|reflexivity]. apply in_all_sent in H. rewrite E in H. destruct H.
+      + split; [discriminate|]. intro H. exfalso. apply H. exists e. apply in_all_sent. rewrite E. left. reflexivity.
+    - destruct (lookup x (i_ctx i)) as [cur|].
+      + split; [intro H; exists cur; auto|intros (c & H1 & H2); congruence].
+      + split; [discriminate|intros (c & H1 & _); discriminate].
+    - destruct (lookup x (i_ctx i)) as [cur|].
+      + split.
+        * intro H. exists cur. split; [reflexivity|]. destruct (py_eqb cur v); [discriminate|reflexivity].
+        * intros (c & H1 & H2). inversion H1; subst. rewrite H2. reflexivity.
+      + split; [discriminate|intros (c & H1 & _); discriminate].
+    - destruct (i_eval i c) as [[|]|]; split; intro H; try reflexivity; discriminate.
+    - destruct (i_eval i c) as [[|]|]; split; intro H; try reflexivity; discriminate.
+    - tauto.
+    - destruct (i_final i); cbn; split; intro H; try reflexivity; discriminate.
+  Qed.
+
+
+  (* ================================================================ given / when steps *)
+  (* interpreter.execute() on a plain interpreter; None when it raises *)
+  Definition exec (i : I) : option (I * list macrostep) :=
+    match i_execute i with (i', Some ms) => Some (i', ms) | (_, None) => None end.
+
+  (* The documented effect of a given/when step on a PLAIN interpreter (no behave, no hooks):
+     new interpreter state and all macro steps its execute() calls returned.  None = some part
+     does not succeed (unknown scenario, negative wait, execute raises) or out of fuel. *)
+  Definition seq_of (pa : action -> I -> option (I * list macrostep)) :=
+    fix go (l : list action) (i : I) : option (I * list macrostep) :=
+      match l with
+      | [] => Some (i, [])
+      | a' :: r =>
+          match pa a' i with
+          | None => None
+          | Some (i1, m1) =>
+              match go r i1 with
+              | None => None
+              | Some (i2, m2) => Some (i2, m1 ++ m2)
+              end
+          end
+      end.
+
+  Fixpoint plain_act (fuel : nat) (feat : feature) (a : action) (i : I) : option (I * list macrostep) :=
+    match fuel with
+    | O => None
+    | S f =>
+        let body :=
+          match a with
+          | ANothing => Some (i, [])
+          | AReproduce nm =>
+              match find_scenario nm feat with
+              | None => None
+              | Some steps => seq_of (plain_act f feat) (map strip_tables (actions_of steps)) i
+              end
+          | ARepeat a' n => seq_of (plain_act f feat) (repeat a' n) i
+          | ASend n tbl inl_ => Some (i_queue (mkEvent External n (build_params tbl inl_)) i, [])
+          | AWait q => if Qle_bool 0 q then Some (i_advance q i, []) else None
+          end in
+        match body with
+        | None => None
+        | Some (i1, m1) =>
+            match exec i1 with
+            | None => None
+            | Some (i2, m2) => Some (i2, m1 ++ m2)
+            end
+        end
+    end.
+
+  (* the nested-steps loop of run_act as a named function (same term) *)
+  Definition run_list (ra : action -> ctx I -> option (ctx I * status)) :=
+    fix go (l : list action) (c : ctx I) : option (ctx I * status) :=
+      match l with
+      | [] => Some (c, Passed)
+      | a' :: r =>
+          match ra a' c with
+          | None => None
+          | Some (c', s) => if is_passed s then go r c' else Some (c', Failed)
+          end
+      end.
+
+  Definition act_body (f : nat) (feat : feature) (k : gw) (a : action) (c : ctx I) : option (ctx I * status) :=
+    match a with
+    | ANothing => Some (c, Passed)
+    | AReproduce nm =>
+        match find_scenario nm feat with
+        | None => Some (c, Failed)
+        | Some steps => run_list (RunAct f feat k) (map strip_tables (actions_of steps)) c
+        end
+    | ARepeat a' n => run_list (RunAct f feat k) (repeat a' n) c
+    | ASend n tbl inl_ =>
+        Some (set_interp I c (i_queue (mkEvent External n (build_params tbl inl_)) (c_interp c)), Passed)
+    | AWait q => if Qle_bool 0 q then Some (set_interp I c (i_advance q (c_interp c)), Passed) else Some (c, Error)
+    end.
+
+  Lemma run_act_S : forall f feat k a c,
+    RunAct (S f) feat k a c =
+    match act_body f feat k a c with
+    | None => None
+    | Some (c1, st) => let '(c2, ok) := AfterStep k c1 in Some (c2, if ok then st else HookError)
+    end.
+  Proof. intros. destruct a; reflexivity. Qed.
+
+  (* invariant of environment.py: monitoring implies that the monitored trace is a list *)
+  Definition inv (c : ctx I) : Prop := c_monitoring c = true -> exists l, c_trace c = Some l.
+
+  Definition base (c : ctx I) : list macrostep :=
+    if c_monitoring c then match c_trace c with Some l => l | None => [] end else [].
+
+  (* the behave context after a step of type k that took the interpreter to i' producing ms *)
+  Definition upd (k : gw) (c : ctx I) (i' : I) (ms : list macrostep) : ctx I :=
+    match k with
+    | Given => set_interp I c i'
+    | When => mkCtx i' true (Some (base c ++ ms))
+    end.
+
+  Lemma inv_upd : forall k c i' ms, inv c -> inv (upd k c i' ms).
+  Proof. intros [|] c i' ms H; unfold inv, upd, set_interp; cbn; [exact H|intros _; eauto]. Qed.
+
+  Lemma after_step_ok : forall k c i' ms, inv c -> exec (c_interp c) = Some (i', ms) ->
+    AfterStep k c = (upd k c i' ms, true).
+  Proof.
+    intros k c i' ms Hi He. unfold exec in He. unfold after_step.
+    destruct (i_execute (c_interp c)) as [i1 [m1|]]; [|discriminate]. inversion He; subst.
+    destruct k; [reflexivity|]. unfold upd, base. destruct (c_monitoring c) eqn:M.
+    - destruct (Hi M) as [l Hl]. rewrite Hl. reflexivity.
+    - reflexivity.
+  Qed.
+
+  Lemma after_step_true : forall k c c2, inv c -> AfterStep k c = (c2, true) ->
+    exists i' ms, exec (c_interp c) = Some (i', ms) /\ c2 = upd k c i' ms.
+  Proof.
+    intros k c c2 Hi H. unfold exec. unfold after_step in H.
+    destruct (i_execute (c_interp c)) as [i1 [m1|]]; [|inversion H].
+    exists i1, m1. split; [reflexivity|]. destruct k.
+    - inversion H. reflexivity.
+    - unfold upd, base. destruct (c_monitoring c) eqn:M.
+      + destruct (Hi M) as [l Hl]. rewrite Hl in *. inversion H. reflexivity.
+      + inversion H. reflexivity.
+  Qed.
+
+  (* context after a list of nested steps of type k: untouched if the list is empty *)
+  Definition updl (k : gw) (c : ctx I) (i' : I) (ms : list macrostep) (l : list action) : ctx I :=
+    match l with [] => c | _ => upd k c i' ms end.
+
+  Lemma upd_upd : forall k c i1 m1 i2 m2, upd k (upd k c i1 m1) i2 m2 = upd k c i2 (m1 ++ m2).
+  Proof. intros [|] c i1 m1 i2 m2; unfold upd, set_interp, base; cbn; [reflexivity|]. rewrite app_assoc. reflexivity. Qed.
+
+  Lemma c_interp_upd : forall k c i ms, c_interp (upd k c i ms) = i.
+  Proof. intros [|] c i ms; reflexivity. Qed.
+
+  Section Fuel.
+    Variable f : nat.
+    Variable feat : feature.
+    Variable k : gw.
+    Hypothesis IHf : forall a c c', inv c -> RunAct f feat k a c = Some (c', Passed) ->
+      exists i' ms, plain_act f feat a (c_interp c) = Some (i', ms) /\ c' = upd k c i' ms.
+    Hypothesis IHb : forall a c i' ms, inv c -> plain_act f feat a (c_interp c) = Some (i', ms) ->
+      RunAct f feat k a c = Some (upd k c i' ms, Passed).
+
+    Lemma run_list_plain : forall l c c', inv c ->
+      run_list (RunAct f feat k) l c = Some (c', Passed) ->
+      exists i' ms, seq_of (plain_act f feat) l (c_interp c) = Some (i', ms) /\ c' = updl k c i' ms l /\
+                    (l = [] -> i' = c_interp c /\ ms = []).
+    Proof.
+      induction l as [|a r IH]; intros c c' Hi H; cbn [run_list seq_of] in *.
+      - inversion H; subst. exists (c_interp c'), []. auto.
+      - destruct (RunAct f feat k a c) as [[c1 s1]|] eqn:E; [|discriminate].
+        destruct s1; cbn [is_passed] in H; try discriminate.
+        destruct (IHf a c c1 Hi E) as (i1 & m1 & P1 & U1). subst c1.
+        destruct (IH (upd k c i1 m1) c' (inv_upd k c i1 m1 Hi) H) as (i2 & m2 & P2 & U2 & Z).
+        rewrite c_interp_upd in P2. rewrite P1, P2. exists i2, (m1 ++ m2). split; [reflexivity|].
+        split; [|discriminate]. cbn [updl]. destruct r as [|a2 r2].
+        + destruct (Z eq_refl) as [Z1 Z2]. subst. cbn [updl]. rewrite c_interp_upd, app_nil_r. reflexivity.
+        + cbn [updl] in U2. rewrite upd_upd in U2. exact U2.
+    Qed.
+
+    Lemma plain_run_list : forall l c i' ms, inv c ->
+      seq_of (plain_act f feat) l (c_interp c) = Some (i', ms) ->
+      run_list (RunAct f feat k) l c = Some (updl k c i' ms l, Passed) /\ (l = [] -> i' = c_interp c /\ ms = []).
+    Proof.
+      induction l as [|a r IH]; intros c i' ms Hi H; cbn [run_list seq_of] in *.
+      - inversion H; subst. auto.
+      - destruct (plain_act f feat a (c_interp c)) as [[i1 m1]|] eqn:E; [|discriminate].
+        destruct (seq_of (plain_act f feat) r i1) as [[i2 m2]|] eqn:E2; [|discriminate].
+        inversion H; subst. rewrite (IHb a c i1 m1 Hi E). cbn [is_passed].
+        destruct (IH (upd k c i1 m1) i' m2 (inv_upd k c i1 m1 Hi)) as [R Z].
+        { rewrite c_interp_upd. exact E2. }
+        rewrite R. split; [|discriminate]. cbn [updl]. destruct r as [|a2 r2].
+        + destruct (Z eq_refl) as [Z1 Z2]. subst. cbn [updl]. rewrite c_interp_upd, app_nil_r. reflexivity.
+        + cbn [updl]. rewrite upd_upd. reflexivity.
+    Qed.
+  End Fuel.
+
+  Lemma inv_updl : forall k c i ms l, inv c -> inv (updl k c i ms l).
+  Proof. intros k c i ms [|a l] H; cbn [updl]; [exact H|apply inv_upd, H]. Qed.
+
+  Lemma finish_step : forall k c l i1 m1 i2 m2, inv c -> (l = [] -> i1 = c_interp c /\ m1 = []) ->
+    upd k (updl k c i1 m1 l) i2 m2 = upd k c i2 (m1 ++ m2).
+  Proof.
+    intros k c [|a l] i1 m1 i2 m2 Hi Z; cbn [updl].
+    - destruct (Z eq_refl); subst. reflexivity.
+    - apply upd_upd.
+  Qed.
+
+  Lemma c_interp_updl : forall k c i ms l, (l = [] -> i = c_interp c /\ ms = []) -> c_interp (updl k c i ms l) = i.
+  Proof. intros k c i ms [|a l] Z; cbn [updl]; [destruct (Z eq_refl); congruence|apply c_interp_upd]. Qed.
+
+  Lemma inv_set_interp : forall c i, inv c -> inv (set_interp I c i).
+  Proof. intros c i H. exact H. Qed.
+
+  Lemma upd_set_interp : forall k c i1 i2 m2, upd k (set_interp I c i1) i2 m2 = upd k c i2 ([] ++ m2).
+  Proof. intros [|] c i1 i2 m2; reflexivity. Qed.
+
+  (* a step that passes has exactly its documented effect ... *)
+  Lemma run_act_plain : forall fuel feat k a c c', inv c ->
+    RunAct fuel feat k a c = Some (c', Passed) ->
+    exists i' ms, plain_act fuel feat a (c_interp c) = Some (i', ms) /\ c' = upd k c i' ms
+  (* ... and a step whose documented effect is defined passes *)
+  with plain_run_act : forall fuel feat k a c i' ms, inv c ->
+    plain_act fuel feat a (c_interp c) = Some (i', ms) ->
+    RunAct fuel feat k a c = Some (upd k c i' ms, Passed).
+  Proof.
+    - intros fuel. destruct fuel as [|f]; intros feat k a c c' Hi H; [discriminate|].
+      rewrite run_act_S in H. cbn [plain_act].
+      assert (FIN : forall c1 i1 m1, act_body f feat k a c = Some (c1, Passed) ->
+                inv c1 -> c_interp c1 = i1 -> (forall i2 m2, upd k c1 i2 m2 = upd k c i2 (m1 ++ m2)) ->
+                exists i' ms, match exec i1 with
+                              | None => None
+                              | Some (i2, m2) => Some (i2, m1 ++ m2)
+                              end = Some (i', ms) /\ c' = upd k c i' ms).
+      { intros c1 i1 m1 B Hi1 Hc U. rewrite B in H. destruct (AfterStep k c1) as [c2 ok] eqn:A.
+        destruct ok; [|discriminate]. inversion H; subst c2.
+        destruct (after_step_true k c1 c' Hi1 A) as (i2 & m2 & E & U2).
+        rewrite Hc in E. rewrite E. exists i2, (m1 ++ m2). split; [reflexivity|].
+        rewrite U2. apply U. }
+      destruct a; cbn [act_body] in *.
+      + apply (FIN c (c_interp c) []); auto.
+      + destruct (find_scenario scenario feat) as [steps|].
+        * destruct (run_list (RunAct f feat k) (map strip_tables (actions_of steps)) c) as [[c1 s1]|] eqn:R; [|discriminate].
+          destruct (AfterStep k c1) as [c2 ok] eqn:A. destruct ok; [|discriminate]. destruct s1; try discriminate.
+          destruct (run_list_plain f feat k (fun a c c' => run_act_plain f feat k a c c') _ c c1 Hi R) as (i1 & m1 & P & U & Z).
+          rewrite P. apply (FIN c1 i1 m1); auto.
+          -- subst c1. apply inv_updl, Hi.
+          -- subst c1. apply c_interp_updl, Z.
+          -- intros i2 m2. subst c1. apply finish_step; assumption.
+        * destruct (AfterStep k c) as [c2 ok]. destruct ok; discriminate.
+      + destruct (run_list (RunAct f feat k) (repeat a n) c) as [[c1 s1]|] eqn:R; [|discriminate].
+        destruct (AfterStep k c1) as [c2 ok] eqn:A. destruct ok; [|discriminate]. destruct s1; try discriminate.
+        destruct (run_list_plain f feat k (fun a c c' => run_act_plain f feat k a c c') _ c c1 Hi R) as (i1 & m1 & P & U & Z).
+        rewrite P. apply (FIN c1 i1 m1); auto.
+        * subst c1. apply inv_updl, Hi.
+        * subst c1. apply c_interp_updl, Z.
+        * intros i2 m2. subst c1. apply finish_step; assumption.
+      + apply (FIN (set_interp I c (i_queue (mkEvent External ev (build_params table inline)) (c_interp c)))
+                     (i_queue (mkEvent External ev (build_params table inline)) (c_interp c)) []); auto; try (intros i2 m2; apply upd_set_interp).
+      + destruct (Qle_bool 0 seconds).
+        * apply (FIN (set_interp I c (i_advance seconds (c_interp c))) (i_advance seconds (c_interp c)) []); auto; try (intros i2 m2; apply upd_set_interp).
+        * destruct (AfterStep k c) as [c2 ok]. destruct ok; discriminate.
+    - intros fuel. destruct fuel as [|f]; intros feat k a c i' ms Hi H; [discriminate|].
+      rewrite run_act_S. cbn [plain_act] in H.
+      assert (FIN : forall c1 i1 m1, inv c1 -> c_interp c1 = i1 ->
+                (forall i2 m2, upd k c1 i2 m2 = upd k c i2 (m1 ++ m2)) ->
+                match exec i1 with None => None | Some (i2, m2) => Some (i2, m1 ++ m2) end = Some (i', ms) ->
+                (let '(c2, ok) := AfterStep k c1 in Some (c2, if ok then Passed else HookError))
+                = Some (upd k c i' ms, Passed)).
+      { intros c1 i1 m1 Hi1 Hc U E. destruct (exec i1) as [[i2 m2]|] eqn:X; [|discriminate]. inversion E; subst.
+        rewrite (after_step_ok k c1 i' m2 Hi1 X). rewrite U. reflexivity. }
+      destruct a; cbn [act_body].
+      + apply (FIN c (c_interp c) []); auto.
+      + destruct (find_scenario scenario feat) as [steps|]; [|discriminate].
+        destruct (seq_of (plain_act f feat) (map strip_tables (actions_of steps)) (c_interp c)) as [[i1 m1]|] eqn:P; [|discriminate].
+        destruct (plain_run_list f feat k (fun a c i' ms => plain_run_act f feat k a c i' ms) _ c i1 m1 Hi P) as [R Z].
+        rewrite R. apply (FIN _ i1 m1); auto.
+        * apply inv_updl, Hi.
+        * apply c_interp_updl, Z.
+        * intros i2 m2. apply finish_step; assumption.
+      + destruct (seq_of (plain_act f feat) (repeat a n) (c_interp c)) as [[i1 m1]|] eqn:P; [|discriminate].
+        destruct (plain_run_list f feat k (fun a c i' ms => plain_run_act f feat k a c i' ms) _ c i1 m1 Hi P) as [R Z].
+        rewrite R. apply (FIN _ i1 m1); auto.
+        * apply inv_updl, Hi.
+        * apply c_interp_updl, Z.
+        * intros i2 m2. apply finish_step; assumption.
+      + apply (FIN (set_interp I c (i_queue (mkEvent External ev (build_params table inline)) (c_interp c)))
+                     (i_queue (mkEvent External ev (build_params table inline)) (c_interp c)) []); auto; try (intros i2 m2; apply upd_set_interp).
+      + destruct (Qle_bool 0 seconds); [|discriminate].
+        apply (FIN (set_interp I c (i_advance seconds (c_interp c))) (i_advance seconds (c_interp c)) []); auto; try (intros i2 m2; apply upd_set_interp).
+  Qed.
+
+
+  (* C19_given_when.  (1) a given/when step passes iff its documented effect on a plain interpreter
+     is defined, and then the interpreter is in exactly that state; a given step leaves the monitored
+     trace alone, a when step appends all macro steps of its execute() calls (those of its nested steps
+     included) to the block.  (2)-(7) the documented effect, kind by kind: what is queued, by how much
+     the clock advances, repeat n = n-fold, reproduce = the given/when steps of the named scenario (tables
+     are not passed on), each followed by execute(), and one more execute() for the step itself. *)
+  Theorem C19_given_when :
+    (forall fuel feat k a c c', inv c ->
+       (RunAct fuel feat k a c = Some (c', Passed) <->
+        exists i' ms, plain_act fuel feat a (c_interp c) = Some (i', ms) /\ c' = upd k c i' ms)) /\
+    (forall f feat i, plain_act (S f) feat ANothing i = exec i) /\
+    (forall f feat n tbl inl_ i,
+       plain_act (S f) feat (ASend n tbl inl_) i = exec (i_queue (mkEvent External n (build_params tbl inl_)) i) /\
+       forall k v, In (k, v) (build_params tbl inl_) <-> last_binding k (bindings tbl inl_) = Some v) /\
+    (forall f feat q i, plain_act (S f) feat (AWait q) i = if Qle_bool 0 q then exec (i_advance q i) else None) /\
+    (forall f feat a n i,
+       plain_act (S f) feat (ARepeat a n) i =
+       match seq_of (plain_act f feat) (repeat a n) i with
+       | None => None
+       | Some (i1, m1) => match exec i1 with None => None | Some (i2, m2) => Some (i2, m1 ++ m2) end
+       end) /\
+    (forall f feat nm i,
+       plain_act (S f) feat (AReproduce nm) i =
+       match find_scenario nm feat with
+       | None => None
+       | Some steps =>
+           match seq_of (plain_act f feat) (map strip_tables (actions_of steps)) i with
+           | None => None
+           | Some (i1, m1) => match exec i1 with None => None | Some (i2, m2) => Some (i2, m1 ++ m2) end
+           end
+       end) /\
+    (forall pa a l i,
+       seq_of pa [] i = Some (i, []) /\
+       seq_of pa (a :: l) i =
+       match pa a i with
+       | None => None
+       | Some (i1, m1) => match seq_of pa l i1 with None => None | Some (i2, m2) => Some (i2, m1 ++ m2) end
+       end).
+  Proof.
+    split; [|split; [|split; [|split; [|split; [|split]]]]].
+    - intros fuel feat k a c c' Hi. split.
+      + apply run_act_plain, Hi.
+      + intros (i' & ms & P & U). subst c'. apply plain_run_act; assumption.
+    - intros f feat i. cbn [plain_act]. destruct (exec i) as [[i2 m2]|]; reflexivity.
+    - intros f feat n tbl inl_ i. split; [|apply build_params_spec]. cbn [plain_act].
+      destruct (exec _) as [[i2 m2]|]; reflexivity.
+    - intros f feat q i. cbn [plain_act]. destruct (Qle_bool 0 q); [|reflexivity].
+      destruct (exec _) as [[i2 m2]|]; reflexivity.
+    - intros. reflexivity.
+    - intros f feat nm i. cbn [plain_act]. destruct (find_scenario nm feat); reflexivity.
+    - intros. split; reflexivity.
+  Qed.
+
+  (* ================================================================ blocks *)
+  Inductive hitem := HW (ms : list macrostep) | HG | HT.   (* a when step with its macro steps / a given / a then *)
+  Definition is_when (x : hitem) : bool := match x with HW _ => true | _ => false end.
+  Definition is_then (x : hitem) : bool := match x with HT => true | _ => false end.
+  Fixpoint whens (h : list hitem) : list macrostep :=
+    match h with
+    | [] => []
+    | HW ms :: r => ms ++ whens r
+    | _ :: r => whens r
+    end.
+
+  (* What a scenario prefix does to a PLAIN interpreter, and its history.  then steps do nothing. *)
+  Fixpoint plain_steps (fuel : nat) (feat : feature) (steps : list step) (i : I) : option (I * list hitem) :=
+    match steps with
+    | [] => Some (i, [])
+    | SAct k a :: r =>
+        match plain_act fuel feat a i with
+        | None => None
+        | Some (i1, ms) =>
+            match plain_steps fuel feat r i1 with
+            | None => None
+            | Some (i2, h) => Some (i2, match k with When => HW ms | Given => HG end :: h)
+            end
+        end
+    | SThen _ :: r =>
+        match plain_steps fuel feat r i with
+        | None => None
+        | Some (i2, h) => Some (i2, HT :: h)
+        end
+    end.
+
+  (* "the block of when steps" at the end of history h, exactly as environment.py delimits it:
+     h = pre ++ seg ++ post where seg starts at the beginning of the scenario or right after a then
+     step, contains no then step but at least one when step, and no when step follows it.
+     Given steps inside seg do not end the block and contribute nothing. *)
+  Definition is_block (h : list hitem) (blk : list macrostep) : Prop :=
+    exists pre seg post,
+      h = pre ++ seg ++ post /\
+      (pre = [] \/ exists p, pre = p ++ [HT]) /\
+      forallb (fun x => negb (is_then x)) seg = true /\
+      existsb is_when seg = true /\
+      forallb (fun x => negb (is_when x)) post = true /\
+      blk = whens seg.
+
+  (* the hook state machine on histories *)
+  Definition mon_step (st : bool * option (list macrostep)) (x : hitem) : bool * option (list macrostep) :=
+    match x with
+    | HW ms => (true, Some ((if fst st then match snd st with Some l => l | None => [] end else []) ++ ms))
+    | HG => st
+    | HT => (false, snd st)
+    end.
+
+  Lemma mon_pre : forall pre t0, (pre = [] \/ exists p, pre = p ++ [HT]) ->
+    fst (fold_left mon_step pre (false, t0)) = false.
+  Proof.
+    intros pre t0 [H|[p H]]; subst; [reflexivity|]. rewrite fold_left_app. reflexivity.
+  Qed.
+
+  Lemma mon_seg_open : forall seg acc, forallb (fun x => negb (is_then x)) seg = true ->
+    fold_left mon_step seg (true, Some acc) = (true, Some (acc ++ whens seg)).
+  Proof.
+    induction seg as [|x seg IH]; intros acc H; cbn [fold_left whens]; [rewrite app_nil_r; reflexivity|].
+    cbn [forallb] in H. apply andb_true_iff in H. destruct H as [H1 H2]. destruct x; cbn [is_then negb] in H1; try discriminate.
+    - cbn [mon_step fst snd]. rewrite IH by exact H2. rewrite app_assoc. reflexivity.
+    - cbn [mon_step]. apply IH, H2.
+  Qed.
+
+  Lemma mon_seg : forall seg t0, forallb (fun x => negb (is_then x)) seg = true -> existsb is_when seg = true ->
+    fold_left mon_step seg (false, t0) = (true, Some (whens seg)).
+  Proof.
+    induction seg as [|x seg IH]; intros t0 H1 H2; cbn [existsb] in H2; [discriminate|].
+    cbn [forallb] in H1. apply andb_true_iff in H1. destruct H1 as [H1 H3].
+    destruct x; cbn [is_then negb] in H1; try discriminate; cbn [fold_left whens mon_step fst snd is_when orb] in *.
+    - apply mon_seg_open, H3.
+    - apply IH; assumption.
+  Qed.
+
+  Lemma mon_post : forall post st, forallb (fun x => negb (is_when x)) post = true ->
+    snd (fold_left mon_step post st) = snd st.
+  Proof.
+    induction post as [|x post IH]; intros st H; cbn [fold_left]; [reflexivity|].
+    cbn [forallb] in H. apply andb_true_iff in H. destruct H as [H1 H2].
+    destruct x; cbn [is_when negb] in H1; try discriminate; rewrite IH by exact H2; reflexivity.
+  Qed.
+
+  Lemma block_mon : forall h blk, is_block h blk -> snd (fold_left mon_step h (false, None)) = Some blk.
+  Proof.
+    intros h blk (pre & seg & post & H & Hp & Hs & Hw & Hq & Hb). subst h blk.
+    rewrite !fold_left_app. rewrite mon_post by exact Hq.
+    destruct (fold_left mon_step pre (false, None)) as [m t] eqn:E.
+    assert (X := mon_pre pre None Hp). rewrite E in X. cbn in X. subst m.
+    rewrite mon_seg by assumption. reflexivity.
+  Qed.
+
+  Lemma then_free_suffix : forall h, exists p s, h = p ++ s /\ forallb (fun x => negb (is_then x)) s = true /\
+    (p = [] \/ exists q, p = q ++ [HT]).
+  Proof.
+    induction h as [|x h IH] using rev_ind.
+    - exists [], []. auto.
+    - destruct IH as (p & s & H1 & H2 & H3). destruct x.
+      + exists p, (s ++ [HW ms]). subst h. rewrite app_assoc. split; [reflexivity|]. split; [|exact H3].
+        rewrite forallb_app, H2. reflexivity.
+      + exists p, (s ++ [HG]). subst h. rewrite app_assoc. split; [reflexivity|]. split; [|exact H3].
+        rewrite forallb_app, H2. reflexivity.
+      + exists (h ++ [HT]), []. rewrite app_nil_r. split; [reflexivity|]. split; [reflexivity|]. right. exists h. reflexivity.
+  Qed.
+
+  (* a history that contains a when step has a block (so the statements below are not vacuous) *)
+  Lemma block_exists : forall h, existsb is_when h = true -> exists blk, is_block h blk.
+  Proof.
+    induction h as [|x h IH] using rev_ind; intro H; [discriminate|].
+    rewrite existsb_app in H. destruct x.
+    - destruct (then_free_suffix h) as (p & s & H1 & H2 & H3). exists (whens (s ++ [HW ms])).
+      exists p, (s ++ [HW ms]), []. subst h. rewrite app_nil_r, app_assoc. repeat split; try assumption.
+      + rewrite forallb_app, H2. reflexivity.
+      + rewrite existsb_app. cbn. apply orb_true_r.
+    - cbn [existsb is_when] in H. rewrite orb_false_r in H. destruct (IH H) as (blk & pre & seg & post & H1 & H2 & H3 & H4 & H5 & H6).
+      exists blk, pre, seg, (post ++ [HG]). subst h. rewrite <- !app_assoc. repeat split; try assumption.
+      rewrite forallb_app, H5. reflexivity.
+    - cbn [existsb is_when] in H. rewrite orb_false_r in H. destruct (IH H) as (blk & pre & seg & post & H1 & H2 & H3 & H4 & H5 & H6).
+      exists blk, pre, seg, (post ++ [HT]). subst h. rewrite <- !app_assoc. repeat split; try assumption.
+      rewrite forallb_app, H5. reflexivity.
+  Qed.
+
+  (* the behave context after a prefix all of whose steps passed *)
+  Fixpoint ctx_after (fuel : nat) (feat : feature) (steps : list step) (c : ctx I) : option (ctx I) :=
+    match steps with
+    | [] => Some c
+    | s :: r =>
+        match RunStep fuel feat s c with
+        | Some (c', Passed) => ctx_after fuel feat r c'
+        | _ => None
+        end
+    end.
+
+  Definition mon_of (c : ctx I) : bool * option (list macrostep) := (c_monitoring c, c_trace c).
+
+  Lemma mon_upd : forall k c i ms, inv c ->
+    mon_of (upd k c i ms) = mon_step (mon_of c) (match k with When => HW ms | Given => HG end).
+  Proof.
+    intros [|] c i ms Hi; unfold mon_of, upd, set_interp, base; cbn; [reflexivity|].
+    destruct (c_monitoring c) eqn:M; [|reflexivity]. destruct (Hi M) as [l Hl]. rewrite Hl. reflexivity.
+  Qed.
+
+  Lemma ctx_after_plain : forall fuel feat steps c c', inv c ->
+    ctx_after fuel feat steps c = Some c' ->
+    exists i h, plain_steps fuel feat steps (c_interp c) = Some (i, h) /\ c_interp c' = i /\
+                mon_of c' = fold_left mon_step h (mon_of c) /\ inv c'.
+  Proof.
+    intros fuel feat. induction steps as [|s r IH]; intros c c' Hi H; cbn [ctx_after plain_steps] in *.
+    - inversion H; subst. exists (c_interp c'), []. auto.
+    - destruct s as [k a|t]; cbn [run_step] in H.
+      + destruct (RunAct fuel feat k a c) as [[c1 s1]|] eqn:E; [|discriminate]. destruct s1; try discriminate.
+        destruct (run_act_plain fuel feat k a c c1 Hi E) as (i1 & ms & P & U). rewrite P.
+        assert (Hi1 : inv c1) by (subst c1; apply inv_upd, Hi).
+        destruct (IH c1 c' Hi1 H) as (i & h & P2 & Hc & Hm & Hv). subst c1. rewrite c_interp_upd in P2.
+        rewrite P2. eexists _, _. split; [reflexivity|]. split; [exact Hc|]. split; [|exact Hv].
+        cbn [fold_left]. rewrite <- (mon_upd k c i1 ms Hi). exact Hm.
+      + unfold run_then in H. destruct (c_trace c) as [tr|] eqn:T; [|discriminate].
+        destruct (EvalThen t tr (c_interp c)); try discriminate.
+        assert (Hi1 : inv (mkCtx (c_interp c) false (Some tr))) by (intro X; discriminate).
+        destruct (IH _ c' Hi1 H) as (i & h & P2 & Hc & Hm & Hv). cbn [c_interp] in P2. rewrite P2.
+        eexists _, _. split; [reflexivity|]. split; [exact Hc|]. split; [|exact Hv].
+        cbn [fold_left mon_step]. unfold mon_of at 2. cbn [snd]. rewrite T. exact Hm.
+  Qed.
+
+  (* C19_block: at any point of a scenario whose steps so far passed, context.interpreter is the plain
+     interpreter after the same given/when steps and context.monitored_trace is the concatenation of
+     the macro steps of the when steps of the block -- None iff there has been no when step yet. *)
+  Theorem C19_block : forall fuel feat steps i0 c,
+    ctx_after fuel feat steps (ctx_init I i0) = Some c ->
+    exists i h, plain_steps fuel feat steps i0 = Some (i, h) /\ c_interp c = i /\
+      (forall blk, is_block h blk -> c_trace c = Some blk) /\
+      (existsb is_when h = true -> exists blk, is_block h blk) /\
+      (existsb is_when h = false -> c_trace c = None).
+  Proof.
+    intros fuel feat steps i0 c H.
+    assert (Hi : inv (ctx_init I i0)) by (intro X; discriminate).
+    destruct (ctx_after_plain fuel feat steps _ c Hi H) as (i & h & P & Hc & Hm & _).
+    exists i, h. split; [exact P|]. split; [exact Hc|]. split; [|split; [apply block_exists|]].
+    - intros blk B. apply block_mon in B. unfold mon_of in Hm. cbn in Hm. rewrite <- Hm in B. exact B.
+    - intro W. unfold mon_of in Hm. cbn in Hm.
+      assert (X : forall l st, existsb is_when l = false -> snd (fold_left mon_step l st) = snd st).
+      { induction l as [|x l IHl]; intros st HW; [reflexivity|]. cbn [existsb] in HW. apply orb_false_iff in HW.
+        destruct HW as [W1 W2]. cbn [fold_left]. rewrite IHl by exact W2. destruct x; try discriminate; reflexivity. }
+      specialize (X h (false, None) W). rewrite <- Hm in X. exact X.
+  Qed.
+
+  (* ================================================================ verdicts *)
+  Lemma run_steps_false : forall fuel feat steps c sts,
+    RunSteps fuel feat steps c false = Some sts -> sts = repeat Skipped (length steps).
+  Proof.
+    intros fuel feat. induction steps as [|s r IH]; intros c sts H; cbn [run_steps] in H.
+    - inversion H. reflexivity.
+    - destruct (RunSteps fuel feat r c false) as [l|] eqn:E; [|discriminate]. inversion H; subst.
+      cbn [length repeat]. f_equal. apply (IH c), E.
+  Qed.
+
+  Lemma run_steps_length : forall fuel feat steps c ok sts,
+    RunSteps fuel feat steps c ok = Some sts -> length sts = length steps.
+  Proof.
+    intros fuel feat. induction steps as [|s r IH]; intros c ok sts H; cbn [run_steps] in H.
+    - inversion H. reflexivity.
+    - destruct ok.
+      + destruct (RunStep fuel feat s c) as [[c1 s1]|]; [|discriminate].
+        destruct (RunSteps fuel feat r c1 (is_passed s1)) as [l|] eqn:E; [|discriminate]. inversion H; subst.
+        cbn [length]. f_equal. apply (IH _ _ _ E).
+      + destruct (RunSteps fuel feat r c false) as [l|] eqn:E; [|discriminate]. inversion H; subst.
+        cbn [length]. f_equal. apply (IH _ _ _ E).
+  Qed.
+
+  (* behave: every step after the first one that did not pass is skipped *)
+  Theorem C19_skip : forall fuel feat steps i0 sts j s,
+    RunScenario fuel feat steps i0 = Some sts ->
+    nth_error sts j = Some s -> s <> Passed ->
+    forall k, (j < k)%nat -> (k < length steps)%nat -> nth_error sts k = Some Skipped.
+  Proof.
+    intros fuel feat steps i0. unfold run_scenario. generalize (ctx_init I i0).
+    induction steps as [|x r IH]; intros c sts j s H Hj Hs k Hjk Hk; cbn [run_steps] in H.
+    - cbn in Hk. lia.
+    - destruct (RunStep fuel feat x c) as [[c1 s1]|]; [|discriminate].
+      destruct (RunSteps fuel feat r c1 (is_passed s1)) as [l|] eqn:E; [|discriminate]. inversion H; subst.
+      destruct k as [|k]; [lia|]. cbn [nth_error]. cbn [length] in Hk. destruct j as [|j].
+      + cbn in Hj. inversion Hj; subst. destruct s; try (exfalso; apply Hs; reflexivity);
+          cbn [is_passed] in E; apply run_steps_false in E; subst l; apply nth_error_repeat; lia.
+      + cbn [nth_error] in Hj. destruct s1; cbn [is_passed] in E.
+        * apply (IH c1 l j s E Hj Hs k); lia.
+        * apply run_steps_false in E; subst l; apply nth_error_repeat; lia.
+        * apply run_steps_false in E; subst l; apply nth_error_repeat; lia.
+        * apply run_steps_false in E; subst l; apply nth_error_repeat; lia.
+        * apply run_steps_false in E; subst l; apply nth_error_repeat; lia.
+  Qed.
+
+  Lemma run_steps_prefix : forall fuel feat pre s rest c sts,
+    RunSteps fuel feat (pre ++ s :: rest) c true = Some sts ->
+    (forall j, (j < length pre)%nat -> nth_error sts j = Some Passed) ->
+    exists c', ctx_after fuel feat pre c = Some c' /\
+               exists st c2, RunStep fuel feat s c' = Some (c2, st) /\ nth_error sts (length pre) = Some st.
+  Proof.
+    intros fuel feat. induction pre as [|x pre IH]; intros s rest c sts H Hp; cbn [app run_steps ctx_after length] in *.
+    - destruct (RunStep fuel feat s c) as [[c1 s1]|] eqn:R0; [|discriminate].
+      destruct (RunSteps fuel feat rest c1 (is_passed s1)) as [l|]; [|discriminate]. inversion H; subst.
+      exists c. split; [reflexivity|]. exists s1, c1. split; [exact R0|reflexivity].
+    - destruct (RunStep fuel feat x c) as [[c1 s1]|]; [|discriminate].
+      destruct (RunSteps fuel feat (pre ++ s :: rest) c1 (is_passed s1)) as [l|] eqn:E; [|discriminate]. inversion H; subst.
+      assert (X := Hp 0%nat (Nat.lt_0_succ _)). cbn in X. inversion X; subst s1. cbn [is_passed] in E.
+      destruct (IH s rest c1 l E) as (c' & A & B).
+      { intros j Hj. apply (Hp (S j)). lia. }
+      exists c'. split; [exact A|exact B].
+  Qed.
+
+  (* C19_verdict: in a scenario run by execute_bdd, a then step all of whose predecessors passed, that
+     is preceded by a when step and names existing states, is reported `passed` iff its fact holds of
+     (the block of when steps as delimited above, the state of a plain interpreter after the same
+     given/when steps). *)
+  Theorem C19_verdict : forall fuel feat pre t rest i0 sts,
+    RunScenario fuel feat (pre ++ SThen t :: rest) i0 = Some sts ->
+    (forall j, (j < length pre)%nat -> nth_error sts j = Some Passed) ->
+    (exists a, In (SAct When a) pre) ->
+    states_ok states t = true ->
+    exists i h blk,
+      plain_steps fuel feat pre i0 = Some (i, h) /\ is_block h blk /\
+      (nth_error sts (length pre) = Some Passed <-> Fact t blk i).
+  Proof.
+    intros fuel feat pre t rest i0 sts H Hp [a Ha] Hs. unfold run_scenario in H.
+    destruct (run_steps_prefix fuel feat pre (SThen t) rest _ sts H Hp) as (c & A & st & c2 & R & N).
+    destruct (C19_block fuel feat pre i0 c A) as (i & h & P & Hc & B1 & B2 & _).
+    assert (W : existsb is_when h = true).
+    { clear - P Ha. revert i0 i h P. induction pre as [|x pre IH]; intros i0 i h P; [destruct Ha|].
+      cbn [plain_steps] in P. destruct x as [k a'|t'].
+      - destruct (plain_act fuel feat a' i0) as [[i1 ms]|]; [|discriminate].
+        destruct (plain_steps fuel feat pre i1) as [[i2 h2]|] eqn:E; [|discriminate]. inversion P; subst.
+        destruct Ha as [X|X].
+        + inversion X; subst. reflexivity.
+        + cbn [existsb]. rewrite (IH X i1 i h2 E). apply orb_true_r.
+      - destruct (plain_steps fuel feat pre i0) as [[i2 h2]|] eqn:E; [|discriminate]. inversion P; subst.
+        destruct Ha as [X|X]; [discriminate|]. cbn [existsb is_when orb]. apply (IH X i0 i h2 E). }
+    destruct (B2 W) as [blk B]. exists i, h, blk. split; [exact P|]. split; [exact B|].
+    rewrite N. cbn [run_step] in R. unfold run_then in R. rewrite (B1 blk B) in R. inversion R; subst.
+    split.
+    - intro X. inversion X as [X']. apply then_fact; assumption.
+    - intro X. f_equal. apply then_fact; assumption.
+  Qed.
+
+End ModelProofs.
+
 (* ================================================================== documented patterns *)
 (* Written by hand from docs/behavior.rst, section "Predefined steps" ("Given/when X" = both a
    given and a when definition), in the order steps.py registers them. *)
@@ -100,4 +1235,824 @@ End Doc.
 Lemma doc_samples_ok : forall ci, Doc.samples_ok ci Doc.patterns = true.
 Proof. intros [|]; vm_compute; reflexivity. Qed.
 
+
+(* ================================================================== strings *)
+Notation "a +++ b" := (String.append a b) (right associativity, at level 60).
+
+Lemma sapp_assoc : forall a b c, (a +++ b) +++ c = a +++ (b +++ c).
+Proof. induction a as [|x a IH]; intros b c; cbn; [reflexivity|]. rewrite IH. reflexivity. Qed.
+
+Lemma sapp_nil_r : forall a, a +++ "" = a.
+Proof. induction a as [|x a IH]; cbn; [reflexivity|]. rewrite IH. reflexivity. Qed.
+
+Lemma sapp_snoc : forall pre c x, pre +++ String c x = (pre +++ s1 c) +++ x.
+Proof. intros. unfold s1. rewrite sapp_assoc. reflexivity. Qed.
+
+Lemma slen_app : forall a b, String.length (a +++ b) = (String.length a + String.length b)%nat.
+Proof. induction a as [|x a IH]; intro b; cbn; [reflexivity|]. rewrite IH. reflexivity. Qed.
+
+Lemma ceq_refl : forall ci a, ceq ci a a = true.
+Proof. intros [|] a; unfold ceq; apply Ascii.eqb_refl. Qed.
+
+Lemma strip_prefix_app : forall ci l r, strip_prefix ci l (l +++ r) = Some r.
+Proof. induction l as [|a l IH]; intro r; cbn; [reflexivity|]. rewrite ceq_refl. apply IH. Qed.
+
+Lemma strip_prefix_none_app : forall ci l x y, strip_prefix ci l x = None ->
+  (String.length l <= String.length x)%nat -> strip_prefix ci l (x +++ y) = None.
+Proof.
+  induction l as [|a l IH]; intros x y H L; cbn in *; [discriminate|].
+  destruct x as [|b x]; cbn in *; [lia|]. destruct (ceq ci a b); [|reflexivity].
+  apply IH; [exact H|lia].
+Qed.
+
+Lemma strip_prefix_split : forall ci l s r, strip_prefix ci l s = Some r ->
+  exists l', s = l' +++ r /\ str_eq_ci ci l l' = true.
+Proof.
+  induction l as [|a l IH]; intros s r H; cbn in H.
+  - inversion H; subst. exists "". auto.
+  - destruct s as [|b s]; [discriminate|]. destruct (ceq ci a b) eqn:E; [|discriminate].
+    destruct (IH s r H) as (l' & H1 & H2). exists (String b l'). subst s. cbn. rewrite E, H2. auto.
+Qed.
+
+Lemma str_eq_ci_len : forall ci a b, str_eq_ci ci a b = true -> String.length a = String.length b.
+Proof.
+  induction a as [|x a IH]; intros [|y b] H; cbn in *; try discriminate; [reflexivity|].
+  apply andb_true_iff in H. destruct H as [_ H]. f_equal. apply IH, H.
+Qed.
+
+(* ================================================================== matcher: completeness *)
+(* An argument is plain w.r.t. the literal that follows its field when the literal does not occur
+   (case folded if ci) at any earlier position of argument ++ literal. *)
+Fixpoint plain_arg_b (ci : bool) (l a : string) : bool :=
+  match a with
+  | EmptyString => true
+  | String _ r =>
+      match r with
+      | EmptyString => true
+      | _ => match strip_prefix ci l (r +++ l) with None => plain_arg_b ci l r | Some _ => false end
+      end
+  end.
+
+Lemma plain_arg_spec : forall ci l a, plain_arg_b ci l a = true ->
+  forall x y, a = x +++ y -> x <> "" -> y <> "" -> strip_prefix ci l (y +++ l) = None.
+Proof.
+  induction a as [|c r IH]; intros H x y E Hx Hy.
+  - destruct x; [congruence|discriminate].
+  - destruct x as [|c' x']; [congruence|]. cbn in E. inversion E; subst c' r. clear E.
+    assert (H' : strip_prefix ci l ((x' +++ y) +++ l) = None /\ plain_arg_b ci l (x' +++ y) = true).
+    { cbn [plain_arg_b] in H. destruct (x' +++ y) as [|c2 r2] eqn:R.
+      - destruct x'; [cbn in R; congruence|discriminate].
+      - destruct (strip_prefix ci l (String c2 r2 +++ l)); [discriminate|]. auto. }
+    destruct H' as [S P]. destruct x' as [|c3 x3].
+    + exact S.
+    + apply (IH P (String c3 x3) y eq_refl); [discriminate|exact Hy].
+Qed.
+
+Section SplitLemmas.
+  Context {A : Type} (k : string -> string -> option A).
+
+  Lemma splits_short_complete : forall a pre r v,
+    (forall x y, a = x +++ y -> x <> "" -> y <> "" -> k (pre +++ x) (y +++ r) = None) ->
+    a <> "" -> k (pre +++ a) r = Some v -> splits_short k pre (a +++ r) = Some v.
+  Proof.
+    induction a as [|c a IH]; intros pre r v H Ha Hk; [congruence|].
+    cbn [String.append splits_short]. unfold sapp. destruct a as [|c2 a2].
+    - cbn [String.append]. unfold s1. rewrite Hk. reflexivity.
+    - rewrite (H (s1 c) (String c2 a2)); [|reflexivity|discriminate|discriminate].
+      apply IH.
+      + intros x y E Hx Hy. rewrite <- sapp_snoc. apply H; [|discriminate|exact Hy]. cbn. rewrite E. reflexivity.
+      + discriminate.
+      + rewrite <- sapp_snoc. exact Hk.
+  Qed.
+
+  Lemma splits_long_none : forall r pre,
+    (forall x y, r = x +++ y -> x <> "" -> k (pre +++ x) y = None) -> splits_long k pre r = None.
+  Proof.
+    induction r as [|c r IH]; intros pre H; [reflexivity|]. cbn [splits_long]. unfold sapp.
+    rewrite IH.
+    - apply (H (s1 c) r); [reflexivity|discriminate].
+    - intros x y E Hx. rewrite <- sapp_snoc. apply H; [|discriminate]. cbn. rewrite E. reflexivity.
+  Qed.
+
+  Lemma splits_long_complete : forall a pre r v,
+    (forall x y, r = x +++ y -> x <> "" -> k (pre +++ a +++ x) y = None) ->
+    a <> "" -> k (pre +++ a) r = Some v -> splits_long k pre (a +++ r) = Some v.
+  Proof.
+    induction a as [|c a IH]; intros pre r v H Ha Hk; [congruence|].
+    cbn [String.append splits_long]. unfold sapp. destruct a as [|c2 a2].
+    - cbn [String.append]. rewrite splits_long_none.
+      + exact Hk.
+      + intros x y E Hx. rewrite sapp_assoc. apply H; assumption.
+    - rewrite (IH (pre +++ s1 c) r v).
+      + reflexivity.
+      + intros x y E Hx. rewrite sapp_assoc. unfold s1. cbn [String.append]. apply H; assumption.
+      + discriminate.
+      + rewrite <- sapp_snoc. exact Hk.
+  Qed.
+End SplitLemmas.
+
+Lemma match_lit : forall ci l p s, match_elems ci (PLit l :: p) (l +++ s) = match_elems ci p s.
+Proof. intros. cbn [match_elems]. rewrite strip_prefix_app. reflexivity. Qed.
+
+Lemma match_any_last : forall ci n a, a <> "" -> match_elems ci [PField n FAny] a = Some [(n, a)].
+Proof.
+  intros ci n a Ha. cbn [match_elems field_ok]. rewrite <- (sapp_nil_r a) at 1.
+  apply splits_short_complete; [|exact Ha|reflexivity].
+  intros x y E Hx Hy. cbn. rewrite sapp_nil_r. destruct y; [congruence|reflexivity].
+Qed.
+
+Lemma match_any_lit : forall ci n l p a s b, a <> "" -> plain_arg_b ci l a = true ->
+  match_elems ci p s = Some b ->
+  match_elems ci (PField n FAny :: PLit l :: p) (a +++ l +++ s) = Some ((n, a) :: b).
+Proof.
+  intros ci n l p a s b Ha Hp Hm. cbn [match_elems field_ok].
+  apply splits_short_complete; [|exact Ha|].
+  - intros x y E Hx Hy. cbn [String.append]. rewrite <- sapp_assoc.
+    rewrite strip_prefix_none_app; [reflexivity| |].
+    + apply (plain_arg_spec ci l a Hp x y E Hx Hy).
+    + rewrite slen_app. lia.
+  - cbn [String.append]. rewrite strip_prefix_app, Hm. reflexivity.
+Qed.
+
+(* numeric fields: a non-empty string of decimal digits, followed by a literal starting with a blank *)
+Lemma span1_digits : forall a seen r, str_forall is_digit a = true -> is_digit " "%char = false ->
+  span1 is_digit (a +++ String " " r) seen = (match a with EmptyString => seen | _ => true end, String " " r).
+Proof.
+  induction a as [|c a IH]; intros seen r H _; cbn in *; [reflexivity|].
+  apply andb_true_iff in H. destruct H as [H1 H2]. rewrite H1. rewrite IH by (assumption || reflexivity).
+  destruct a; reflexivity.
+Qed.
+
+Lemma digits_not_sign : forall c, is_digit c = true -> is_sign3 c = false /\ is_sign2 c = false.
+Proof.
+  intros c H. unfold is_digit in H. unfold is_sign3, is_sign2.
+  destruct c as [[|] [|] [|] [|] [|] [|] [|] [|]]; cbn in *; try discriminate; auto.
+Qed.
+
+Lemma str_forall_app : forall p a b, str_forall p (a +++ b) = str_forall p a && str_forall p b.
+Proof. induction a as [|c a IH]; intro b; cbn; [reflexivity|]. rewrite IH, andb_assoc. reflexivity. Qed.
+
+Lemma digit_head_facts : forall ci c, is_digit c = true ->
+  ceq ci c "n"%char = false /\ ceq ci c "N"%char = false /\ ceq ci c "i"%char = false /\ ceq ci c "I"%char = false.
+Proof.
+  intros ci c H. unfold is_digit in H.
+  destruct c as [[|] [|] [|] [|] [|] [|] [|] [|]]; cbn in H; try discriminate; destruct ci; cbn; auto.
+Qed.
+
+Lemma span1_all_digits : forall s b, str_forall is_digit s = true ->
+  span1 is_digit s b = (match s with EmptyString => b | _ => true end, "").
+Proof.
+  induction s as [|x s IH]; intros b H; [reflexivity|]. cbn in *. apply andb_true_iff in H.
+  destruct H as [H1 H2]. rewrite H1. rewrite IH by exact H2. destruct s; reflexivity.
+Qed.
+
+Lemma field_ok_digits : forall ci t a, nonempty_all is_digit a = true -> field_ok ci t a = true.
+Proof.
+  intros ci t a H. destruct a as [|c a]; [discriminate|]. cbn [nonempty_all] in H.
+  assert (Hc : is_digit c = true) by (cbn in H; apply andb_true_iff in H; tauto).
+  destruct (digits_not_sign c Hc) as [S3 S2].
+  destruct t; [reflexivity| |].
+  - cbn [field_ok]. unfold d_ok. cbn [opt_char]. rewrite S3. cbn [opt_char]. rewrite S3.
+    cbn [nonempty_all]. rewrite H. reflexivity.
+  - cbn [field_ok]. unfold g_ok. cbn [opt_char]. rewrite S3.
+    rewrite (span1_all_digits (String c a) false H). reflexivity.
+Qed.
+
+Lemma field_ok_digits_blank : forall ci t a x, nonempty_all is_digit a = true -> (t = FInt \/ t = FNum) ->
+  field_ok ci t (a +++ String " " x) = false.
+Proof.
+  intros ci t a x H Ht. destruct a as [|c a]; [discriminate|]. cbn [nonempty_all] in H.
+  assert (Hc : is_digit c = true) by (cbn in H; apply andb_true_iff in H; tauto).
+  assert (Ha : str_forall is_digit a = true) by (cbn in H; apply andb_true_iff in H; tauto).
+  destruct (digits_not_sign c Hc) as [S3 S2]. destruct (digit_head_facts ci c Hc) as (N1 & N2 & N3 & N4).
+  assert (D : forall y, nonempty_all is_digit (String c (a +++ String " " y)) = false).
+  { intro y. cbn. rewrite str_forall_app. cbn. rewrite andb_false_r, andb_false_r. reflexivity. }
+  assert (B : forall y m p, (forall ch, (is_digit ch = true \/ ch = " "%char) -> ceq true ch m = false) ->
+              based ci m p (String c (a +++ String " " y)) = false).
+  { intros y m p Hm. unfold based. cbn [opt_char]. rewrite S3. destruct a as [|a1 a2]; cbn [String.append].
+    - rewrite (Hm " "%char) by (right; reflexivity). rewrite andb_false_r. reflexivity.
+    - cbn in Ha. apply andb_true_iff in Ha. destruct Ha as [Ha1 Ha2].
+      rewrite (Hm a1) by (left; exact Ha1). rewrite andb_false_r. reflexivity. }
+  assert (MX : forall ch, (is_digit ch = true \/ ch = " "%char) -> ceq true ch "x"%char = false).
+  { intros ch [Hd|Hd]; [|subst; reflexivity]. unfold is_digit in Hd.
+    destruct ch as [[|] [|] [|] [|] [|] [|] [|] [|]]; cbn in Hd; try discriminate; reflexivity. }
+  assert (MB : forall ch, (is_digit ch = true \/ ch = " "%char) -> ceq true ch "b"%char = false).
+  { intros ch [Hd|Hd]; [|subst; reflexivity]. unfold is_digit in Hd.
+    destruct ch as [[|] [|] [|] [|] [|] [|] [|] [|]]; cbn in Hd; try discriminate; reflexivity. }
+  assert (MO : forall ch, (is_digit ch = true \/ ch = " "%char) -> ceq true ch "o"%char = false).
+  { intros ch [Hd|Hd]; [|subst; reflexivity]. unfold is_digit in Hd.
+    destruct ch as [[|] [|] [|] [|] [|] [|] [|] [|]]; cbn in Hd; try discriminate; reflexivity. }
+  assert (G : forall y, g_ok ci (String c (a +++ String " " y)) = false).
+  { intro y. unfold g_ok. cbn [opt_char]. rewrite S3, S2.
+    assert (X : span1 is_digit (String c (a +++ String " " y)) false = (true, String " " y)).
+    { cbn [span1]. rewrite Hc. rewrite span1_digits by (assumption || reflexivity). destruct a; reflexivity. }
+    rewrite X. cbn [andb].
+    replace (str_eq_ci ci (String c (a +++ String " " y)) "nan") with false by (cbn; rewrite N1; reflexivity).
+    replace (str_eq_ci ci (String c (a +++ String " " y)) "NAN") with false by (cbn; rewrite N2; reflexivity).
+    replace (str_eq_ci ci (String c (a +++ String " " y)) "inf") with false by (cbn; rewrite N3; reflexivity).
+    replace (str_eq_ci ci (String c (a +++ String " " y)) "INF") with false by (cbn; rewrite N4; reflexivity).
+    destruct ci; reflexivity. }
+  destruct Ht; subst t; cbn [field_ok String.append].
+  - unfold d_ok. cbn [opt_char]. rewrite S3. cbn [opt_char]. rewrite S3.
+    rewrite !D, !(B _ _ _ MX), !(B _ _ _ MB), !(B _ _ _ MO). reflexivity.
+  - rewrite !G. reflexivity.
+Qed.
+
+Lemma match_num_lit : forall ci n t l' p a s b, nonempty_all is_digit a = true -> (t = FInt \/ t = FNum) ->
+  match_elems ci p s = Some b ->
+  match_elems ci (PField n t :: PLit (String " " l') :: p) (a +++ String " " l' +++ s) = Some ((n, a) :: b).
+Proof.
+  intros ci n t l' p a s b Ha Ht Hm.
+  assert (Hne : a <> "") by (destruct a; [discriminate|discriminate]).
+  assert (X : match_elems ci (PField n t :: PLit (String " " l') :: p) (a +++ String " " l' +++ s) =
+              splits_long (fun pre rest => if field_ok ci t pre then
+                                             match match_elems ci (PLit (String " " l') :: p) rest with
+                                             | Some b => Some ((n, pre) :: b) | None => None end
+                                           else None) "" (a +++ String " " l' +++ s)).
+  { destruct Ht; subst t; reflexivity. }
+  rewrite X. apply splits_long_complete; [|exact Hne|].
+  - intros x y E Hx. cbn [String.append]. destruct x as [|c x]; [congruence|].
+    cbn [String.append] in E. inversion E; subst c.
+    rewrite (field_ok_digits_blank ci t a x Ha Ht). reflexivity.
+  - cbn [String.append]. rewrite (field_ok_digits ci t a Ha). change (String " " (l' +++ s)) with (String " " l' +++ s).
+    rewrite match_lit, Hm. reflexivity.
+Qed.
+
+(* ================================================================== matcher: when a pattern cannot match *)
+Lemma nomatch_prefix : forall ci l p s, strip_prefix ci l s = None -> match_elems ci (PLit l :: p) s = None.
+Proof. intros ci l p s H. cbn [match_elems]. rewrite H. reflexivity. Qed.
+
+(* l occurs in s (case folded if ci) *)
+Fixpoint contains (ci : bool) (l s : string) : bool :=
+  match strip_prefix ci l s with
+  | Some _ => true
+  | None => match s with EmptyString => false | String _ r => contains ci l r end
+  end.
+
+Lemma contains_skip : forall ci l x s, contains ci l s = true -> contains ci l (x +++ s) = true.
+Proof.
+  induction x as [|c x IH]; intros s H; cbn [String.append]; [exact H|].
+  cbn [contains]. destruct (strip_prefix ci l (String c (x +++ s))); [reflexivity|]. apply IH, H.
+Qed.
+
+Section SplitSome.
+  Context {A : Type} (k : string -> string -> option A).
+  Lemma splits_short_some : forall s pre v, splits_short k pre s = Some v ->
+    exists x y, s = x +++ y /\ x <> "" /\ k (pre +++ x) y = Some v.
+  Proof.
+    induction s as [|c s IH]; intros pre v H; cbn [splits_short] in H; [discriminate|]. unfold sapp in H.
+    destruct (k (pre +++ s1 c) s) eqn:E.
+    - inversion H; subst. exists (s1 c), s. split; [reflexivity|]. split; [discriminate|exact E].
+    - destruct (IH _ _ H) as (x & y & H1 & H2 & H3). exists (String c x), y. subst s.
+      split; [reflexivity|]. split; [discriminate|]. rewrite sapp_snoc. exact H3.
+  Qed.
+  Lemma splits_long_some : forall s pre v, splits_long k pre s = Some v ->
+    exists x y, s = x +++ y /\ x <> "" /\ k (pre +++ x) y = Some v.
+  Proof.
+    induction s as [|c s IH]; intros pre v H; cbn [splits_long] in H; [discriminate|]. unfold sapp in H.
+    destruct (splits_long k (pre +++ s1 c) s) eqn:E.
+    - inversion H; subst. destruct (IH _ _ E) as (x & y & H1 & H2 & H3). exists (String c x), y. subst s.
+      split; [reflexivity|]. split; [discriminate|]. rewrite sapp_snoc. exact H3.
+    - exists (s1 c), s. split; [reflexivity|]. split; [discriminate|exact H].
+  Qed.
+End SplitSome.
+
+(* one step of a successful match: a non-empty prefix of the text is consumed by the field *)
+Lemma match_field_some : forall ci n t p s b, match_elems ci (PField n t :: p) s = Some b ->
+  exists x y b', s = x +++ y /\ x <> "" /\ match_elems ci p y = Some b' /\ b = (n, x) :: b'.
+Proof.
+  intros ci n t p s b H. cbn [match_elems] in H.
+  assert (X : exists x y, s = x +++ y /\ x <> "" /\
+              (if field_ok ci t x then match match_elems ci p y with Some b0 => Some ((n, x) :: b0) | None => None end
+               else None) = Some b).
+  { destruct t; [apply splits_short_some in H|apply splits_long_some in H|apply splits_long_some in H];
+      destruct H as (x & y & H1 & H2 & H3); exists x, y; auto. }
+  destruct X as (x & y & H1 & H2 & H3). destruct (field_ok ci t x); [|discriminate].
+  destruct (match_elems ci p y) as [b0|] eqn:E; [|discriminate]. inversion H3; subst.
+  exists x, y, b0. auto.
+Qed.
+
+(* every literal of a pattern that matches occurs in the text *)
+Lemma match_contains : forall ci l p s b, match_elems ci p s = Some b -> In (PLit l) p -> contains ci l s = true.
+Proof.
+  induction p as [|e p IH]; intros s b H Hin; [destruct Hin|]. destruct e as [l0|n t].
+  - cbn [match_elems] in H. destruct (strip_prefix ci l0 s) as [r|] eqn:E; [|discriminate].
+    destruct Hin as [X|X].
+    + inversion X; subst. destruct s; cbn [contains]; rewrite E; reflexivity.
+    + destruct (strip_prefix_split ci l0 s r E) as (l' & H1 & _). subst s. apply contains_skip. apply (IH r b H X).
+  - destruct Hin as [X|X]; [discriminate|].
+    destruct (match_field_some ci n t p s b H) as (x & y & b' & H1 & _ & H3 & _). subst s.
+    apply contains_skip. apply (IH y b' H3 X).
+Qed.
+
+(* the text of a matching pattern ends with (something case-equal to) its last literal *)
+Definition ends_with (ci : bool) (l s : string) : Prop := exists front tail, s = front +++ tail /\ str_eq_ci ci l tail = true.
+
+Lemma strip_prefix_full : forall ci l s, strip_prefix ci l s = Some "" -> str_eq_ci ci l s = true.
+Proof.
+  induction l as [|a l IH]; intros s H; cbn in H.
+  - inversion H; subst. reflexivity.
+  - destruct s as [|b s]; [discriminate|]. destruct (ceq ci a b) eqn:E; [|discriminate]. cbn. rewrite E. apply IH, H.
+Qed.
+
+Lemma match_ends : forall ci l p s b, match_elems ci (p ++ [PLit l]) s = Some b -> ends_with ci l s.
+Proof.
+  induction p as [|e p IH]; intros s b H.
+  - cbn [app match_elems] in H. destruct (strip_prefix ci l s) as [r|] eqn:E; [|discriminate].
+    destruct r; [|discriminate]. exists "", s. split; [reflexivity|]. apply strip_prefix_full, E.
+  - cbn [app] in H. destruct e as [l0|n t].
+    + cbn [match_elems] in H. destruct (strip_prefix ci l0 s) as [r|] eqn:E; [|discriminate].
+      destruct (strip_prefix_split ci l0 s r E) as (l' & H1 & _). destruct (IH r b H) as (f & t & H2 & H3).
+      exists (l' +++ f), t. subst. rewrite sapp_assoc. auto.
+    + destruct (match_field_some ci n t _ s b H) as (x & y & b' & H1 & _ & H3 & _).
+      destruct (IH y b' H3) as (f & tl & H2 & H4). exists (x +++ f), tl. subst. rewrite sapp_assoc. auto.
+Qed.
+
+Lemma sapp_cancel_r : forall f2 f1 t1 t2, f1 +++ t1 = f2 +++ t2 -> (String.length t1 <= String.length t2)%nat ->
+  exists g, t2 = g +++ t1.
+Proof.
+  induction f2 as [|c f2 IH]; intros f1 t1 t2 H L.
+  - cbn in H. exists f1. congruence.
+  - destruct f1 as [|c1 f1].
+    + cbn in H. subst t1. cbn in L. rewrite slen_app in L. lia.
+    + cbn in H. inversion H; subst. apply (IH f1 t1 t2 H2 L).
+Qed.
+
+Fixpoint sskip (n : nat) (s : string) : string :=
+  match n, s with O, _ => s | S n', String _ r => sskip n' r | S _, EmptyString => EmptyString end.
+
+Lemma sskip_app : forall g t, sskip (String.length g) (g +++ t) = t.
+Proof. induction g as [|c g IH]; intro t; cbn; [reflexivity|apply IH]. Qed.
+
+(* l1 is (case-equal to) a suffix of l2, for two literals *)
+Definition suffix_lit (ci : bool) (l1 l2 : string) : bool :=
+  str_eq_ci ci l1 (sskip (String.length l2 - String.length l1) l2).
+
+Lemma str_eq_ci_sym : forall ci a b, str_eq_ci ci a b = str_eq_ci ci b a.
+Proof.
+  induction a as [|x a IH]; intros [|y b]; cbn; try reflexivity. rewrite IH. f_equal.
+  unfold ceq. destruct ci; apply Ascii.eqb_sym.
+Qed.
+
+Lemma str_eq_ci_app : forall ci a b c d, str_eq_ci ci a b = true -> str_eq_ci ci (a +++ c) (b +++ d) = str_eq_ci ci c d.
+Proof.
+  induction a as [|x a IH]; intros [|y b] c d H; cbn in *; try discriminate; [reflexivity|].
+  apply andb_true_iff in H. destruct H as [H1 H2]. rewrite H1. apply IH, H2.
+Qed.
+
+(* suffix clash: a text that ends with the literal l2 cannot be matched by a pattern whose last literal
+   is l1 unless the shorter of the two is a suffix of the longer *)
+Lemma nomatch_suffix : forall ci p l1 front l2,
+  (if (String.length l1 <=? String.length l2)%nat then suffix_lit ci l1 l2 else suffix_lit ci l2 l1) = false ->
+  match_elems ci (p ++ [PLit l1]) (front +++ l2) = None.
+Proof.
+  intros ci p l1 front l2 H. destruct (match_elems ci (p ++ [PLit l1]) (front +++ l2)) as [b|] eqn:E; [|reflexivity].
+  exfalso. destruct (match_ends ci l1 p _ b E) as (f & t & H1 & H2).
+  assert (Lt := str_eq_ci_len ci l1 t H2).
+  destruct (String.length l1 <=? String.length l2)%nat eqn:L.
+  - apply Nat.leb_le in L. symmetry in H1. destruct (sapp_cancel_r front f t l2 H1) as (g & G); [lia|].
+    unfold suffix_lit in H. assert (X : (String.length l2 - String.length l1 = String.length g)%nat).
+    { rewrite G, slen_app. lia. }
+    rewrite X, G, sskip_app, H2 in H. discriminate.
+  - apply Nat.leb_gt in L. destruct (sapp_cancel_r f front l2 t H1) as (g & G); [lia|].
+    unfold suffix_lit in H. subst t.
+    assert (Y : exists g1 t1, l1 = g1 +++ t1 /\ String.length g1 = String.length g /\ str_eq_ci ci t1 l2 = true).
+    { clear - H2. revert l1 H2. induction g as [|c g IH]; intros l1 H2.
+      - exists "", l1. cbn in *. auto.
+      - destruct l1 as [|c1 l1]; cbn in H2; [discriminate|]. apply andb_true_iff in H2. destruct H2 as [_ H2].
+        destruct (IH l1 H2) as (g1 & t1 & A & B & C). exists (String c1 g1), t1. subst. cbn. auto. }
+    destruct Y as (g1 & t1 & A & B & C).
+    assert (X : (String.length l1 - String.length l2 = String.length g1)%nat).
+    { rewrite A, slen_app. rewrite (str_eq_ci_len ci t1 l2 C). lia. }
+    rewrite X, A, sskip_app, str_eq_ci_sym, C in H. discriminate.
+Qed.
+
+(* first match wins *)
+Lemma dispatch_cons : forall ci ty pat fn r st text,
+  dispatch ci ((ty, pat, fn) :: r) st text =
+  if str_eqb ty st then
+    match parse_pattern pat with
+    | None => DUnsupported pat
+    | Some p => match match_elems ci p text with Some b => DMatch fn b | None => dispatch ci r st text end
+    end
+  else dispatch ci r st text.
+Proof. reflexivity. Qed.
+
+(* the registry with its patterns parsed once *)
+Definition pstepdef := (string * option pattern * string * string)%type.
+Definition parsed_of (defs : list stepdef) : list pstepdef :=
+  map (fun d => match d with (ty, pat, fn) => (ty, parse_pattern pat, pat, fn) end) defs.
+
+Fixpoint dispatch_p (ci : bool) (defs : list pstepdef) (stype : string) (text : string) : dispatch_result :=
+  match defs with
+  | [] => DUndefined
+  | (ty, pp, pat, fn) :: r =>
+      if str_eqb ty stype then
+        match pp with
+        | None => DUnsupported pat
+        | Some p =>
+            match match_elems ci p text with
+            | Some b => DMatch fn b
+            | None => dispatch_p ci r stype text
+            end
+        end
+      else dispatch_p ci r stype text
+  end.
+
+Lemma dispatch_parsed : forall ci defs st text, dispatch ci defs st text = dispatch_p ci (parsed_of defs) st text.
+Proof.
+  induction defs as [|[[ty pat] fn] r IH]; intros st text; cbn [dispatch parsed_of map dispatch_p]; [reflexivity|].
+  destruct (str_eqb ty st); [|apply IH]. destruct (parse_pattern pat); [|reflexivity].
+  destruct (match_elems ci p text); [reflexivity|apply IH].
+Qed.
+
+Definition doc_parsed : list pstepdef := Eval vm_compute in parsed_of Doc.patterns.
+Lemma doc_parsed_ok : parsed_of Doc.patterns = doc_parsed.
+Proof. vm_compute. reflexivity. Qed.
+
+Lemma dispatch_doc : forall ci st text, dispatch ci Doc.patterns st text = dispatch_p ci doc_parsed st text.
+Proof. intros. rewrite dispatch_parsed, doc_parsed_ok. reflexivity. Qed.
+
+Lemma dispatch_skip_type : forall ci ty pp pat fn r st text R,
+  str_eqb ty st = false -> dispatch_p ci r st text = R -> dispatch_p ci ((ty, pp, pat, fn) :: r) st text = R.
+Proof. intros. cbn [dispatch_p]. rewrite H. assumption. Qed.
+
+Lemma dispatch_nomatch : forall ci ty pat fn r st text p R,
+  str_eqb ty st = true -> match_elems ci p text = None ->
+  dispatch_p ci r st text = R -> dispatch_p ci ((ty, Some p, pat, fn) :: r) st text = R.
+Proof. intros. cbn [dispatch_p]. rewrite H, H0. assumption. Qed.
+
+Lemma dispatch_match : forall ci ty pat fn r st text p b,
+  str_eqb ty st = true -> match_elems ci p text = Some b ->
+  dispatch_p ci ((ty, Some p, pat, fn) :: r) st text = DMatch fn b.
+Proof. intros. cbn [dispatch_p]. rewrite H, H0. reflexivity. Qed.
+
+(* a field followed by the LAST literal of the pattern: no plainness needed, the literal must end the text *)
+Lemma match_any_lit_end : forall ci n l a, a <> "" ->
+  match_elems ci [PField n FAny; PLit l] (a +++ l) = Some [(n, a)].
+Proof.
+  intros ci n l a Ha. replace (a +++ l) with (a +++ l +++ "") by (rewrite sapp_nil_r; reflexivity).
+  cbn [match_elems field_ok]. apply splits_short_complete; [|exact Ha|].
+  - intros x y E Hx Hy. cbn [String.append]. rewrite sapp_nil_r.
+    destruct (strip_prefix ci l (y +++ l)) as [r|] eqn:S; [|reflexivity].
+    destruct (strip_prefix_split ci l _ r S) as (l' & H1 & H2). apply str_eq_ci_len in H2.
+    assert (L : String.length (y +++ l) = String.length (l' +++ r)) by (rewrite H1; reflexivity).
+    rewrite !slen_app in L. destruct r; [|reflexivity]. destruct y; [congruence|]. cbn in L. lia.
+  - cbn [String.append]. rewrite strip_prefix_app. reflexivity.
+Qed.
+
+Lemma match_num_lit_end : forall ci n t l' a, nonempty_all is_digit a = true -> (t = FInt \/ t = FNum) ->
+  match_elems ci [PField n t; PLit (String " " l')] (a +++ String " " l') = Some [(n, a)].
+Proof.
+  intros ci n t l' a Ha Ht.
+  replace (a +++ String " " l') with (a +++ String " " l' +++ "") by (rewrite sapp_nil_r; reflexivity).
+  apply match_num_lit; auto.
+Qed.
+
+(* suffix clash for texts of the form prefix ++ argument ++ suffix *)
+Lemma nomatch_suffix2 : forall ci p l1 pre x l2,
+  (if (String.length l1 <=? String.length l2)%nat then suffix_lit ci l1 l2 else suffix_lit ci l2 l1) = false ->
+  match_elems ci (p ++ [PLit l1]) (pre +++ x +++ l2) = None.
+Proof. intros. rewrite <- sapp_assoc. apply nomatch_suffix. assumption. Qed.
+
+(* ================================================================== C19_dispatch *)
+(* every predefined step in the spelling of docs/behavior.rst, with its arguments as text *)
+Inductive docstep :=
+| DNothing (k : gw)
+| DReproduce (k : gw) (scen : string)
+| DRepeat (k : gw) (stp n : string)
+| DSend (k : gw) (nm : string)
+| DSendWith (k : gw) (nm prm val : string)
+| DWait (k : gw) (secs : string) (singular : bool)
+| DEntered (n : string) | DNotEntered (n : string) | DExited (n : string) | DNotExited (n : string)
+| DActive (n : string) | DNotActive (n : string)
+| DFired (n : string) | DFiredWith (n prm val : string) | DNotFired (n : string) | DNoEvent
+| DVarEq (x v : string) | DVarNe (x v : string)
+| DExpr (e : string) | DNotExpr (e : string)
+| DFinal | DNotFinal.
+
+Definition doc_type (d : docstep) : string :=
+  match d with
+  | DNothing k | DReproduce k _ | DRepeat k _ _ | DSend k _ | DSendWith k _ _ _ | DWait k _ _ => gw_type k
+  | _ => "then"
+  end.
+
+Definition doc_text (d : docstep) : string :=
+  match d with
+  | DNothing _ => "I do nothing"
+  | DReproduce _ s => "I reproduce """ +++ s +++ """"
+  | DRepeat _ st n => "I repeat """ +++ st +++ """ " +++ n +++ " times"
+  | DSend _ n => "I send event " +++ n
+  | DSendWith _ n p v => "I send event " +++ n +++ " with " +++ p +++ "=" +++ v
+  | DWait _ s true => "I wait " +++ s +++ " second"
+  | DWait _ s false => "I wait " +++ s +++ " seconds"
+  | DEntered n => "state " +++ n +++ " is entered"
+  | DNotEntered n => "state " +++ n +++ " is not entered"
+  | DExited n => "state " +++ n +++ " is exited"
+  | DNotExited n => "state " +++ n +++ " is not exited"
+  | DActive n => "state " +++ n +++ " is active"
+  | DNotActive n => "state " +++ n +++ " is not active"
+  | DFired n => "event " +++ n +++ " is fired"
+  | DFiredWith n p v => "event " +++ n +++ " is fired with " +++ p +++ "=" +++ v
+  | DNotFired n => "event " +++ n +++ " is not fired"
+  | DNoEvent => "no event is fired"
+  | DVarEq x v => "variable " +++ x +++ " equals " +++ v
+  | DVarNe x v => "variable " +++ x +++ " does not equal " +++ v
+  | DExpr e => "expression """ +++ e +++ """ holds"
+  | DNotExpr e => "expression """ +++ e +++ """ does not hold"
+  | DFinal => "statechart is in a final configuration"
+  | DNotFinal => "statechart is not in a final configuration"
+  end.
+
+(* the step function of steps.py that must be selected, and the arguments it must receive *)
+Definition doc_fn (d : docstep) : string :=
+  match d with
+  | DNothing _ => "do_nothing"
+  | DReproduce Given _ => "reproduce_scenario" | DReproduce When _ => "_reproduce_scenario"
+  | DRepeat Given _ _ => "repeat_step" | DRepeat When _ _ => "_repeat_step"
+  | DSend _ _ | DSendWith _ _ _ _ => "send_event"
+  | DWait _ _ _ => "wait"
+  | DEntered _ => "state_is_entered" | DNotEntered _ => "state_is_not_entered"
+  | DExited _ => "state_is_exited" | DNotExited _ => "state_is_not_exited"
+  | DActive _ => "state_is_active" | DNotActive _ => "state_is_not_active"
+  | DFired _ | DFiredWith _ _ _ => "event_is_fired"
+  | DNotFired _ => "event_is_not_fired" | DNoEvent => "no_event_is_fired"
+  | DVarEq _ _ => "variable_equals" | DVarNe _ _ => "variable_does_not_equal"
+  | DExpr _ => "expression_holds" | DNotExpr _ => "expression_does_not_hold"
+  | DFinal => "final_configuration" | DNotFinal => "not_final_configuration"
+  end.
+
+Definition doc_args (d : docstep) : list binding :=
+  match d with
+  | DNothing _ | DNoEvent | DFinal | DNotFinal => []
+  | DReproduce _ s => [("scenario", s)]
+  | DRepeat _ st n => [("step", st); ("repeat", n)]
+  | DSend _ n => [("name", n)]
+  | DSendWith _ n p v => [("name", n); ("parameter", p); ("value", v)]
+  | DWait _ s _ => [("seconds", s)]
+  | DEntered n | DNotEntered n | DExited n | DNotExited n | DActive n | DNotActive n
+  | DFired n | DNotFired n => [("name", n)]
+  | DFiredWith n p v => [("name", n); ("parameter", p); ("value", v)]
+  | DVarEq x v | DVarNe x v => [("variable", x); ("value", v)]
+  | DExpr e | DNotExpr e => [("expression", e)]
+  end.
+
+Definition nonempty (s : string) : bool := match s with EmptyString => false | _ => true end.
+Lemma nonempty_ne : forall s, nonempty s = true -> s <> "".
+Proof. intros [|c s] H; [discriminate|discriminate]. Qed.
+
+(* "plain arguments": non-empty; an argument followed by a keyword and a further argument does not
+   contain that keyword early (plain_arg_b); numbers are decimal digits; where an earlier registered
+   pattern differs only by an extra keyword ("=", " equals "), that keyword does not occur. *)
+Definition doc_plain (ci : bool) (d : docstep) : bool :=
+  match d with
+  | DNothing _ | DNoEvent | DFinal | DNotFinal => true
+  | DReproduce _ s => nonempty s
+  | DRepeat _ st n => nonempty st && plain_arg_b ci """ " st && nonempty_all is_digit n
+  | DSend _ n => nonempty n && negb (contains ci "=" n)
+  | DSendWith _ n p v => nonempty n && plain_arg_b ci " with " n && nonempty p && plain_arg_b ci "=" p && nonempty v
+  | DWait _ s _ => nonempty_all is_digit s
+  | DEntered n | DNotEntered n | DExited n | DNotExited n | DActive n | DNotActive n => nonempty n
+  | DFired n | DNotFired n => nonempty n && negb (contains ci "=" n)
+  | DFiredWith n p v => nonempty n && plain_arg_b ci " is fired with " n && nonempty p && plain_arg_b ci "=" p && nonempty v
+  | DVarEq x v => nonempty x && plain_arg_b ci " equals " x && nonempty v
+  | DVarNe x v => nonempty x && plain_arg_b ci " does not equal " x && nonempty v
+                  && negb (contains ci " equals " (doc_text (DVarNe x v)))
+  | DExpr e | DNotExpr e => nonempty e
+  end.
+
+Ltac skip_type := apply dispatch_skip_type; [reflexivity|].
+Ltac no_prefix := apply dispatch_nomatch; [reflexivity|apply nomatch_prefix; reflexivity|].
+Ltac no_suffix :=
+  apply dispatch_nomatch; [reflexivity| |];
+  [match goal with
+   | |- match_elems ?ci [?a; ?b; PLit ?l1] (?pre +++ ?x +++ ?l2) = None =>
+       apply (nomatch_suffix2 ci [a; b] l1 pre x l2); reflexivity
+   end|].
+Ltac hit := apply dispatch_match; [reflexivity|].
+Ltac start := rewrite ?dispatch_doc; unfold doc_parsed; cbn [doc_text doc_fn gw_type].
+Ltac skips := start; repeat first [skip_type | no_prefix | no_suffix].
+
+Lemma andb_split : forall a b, a && b = true -> a = true /\ b = true.
+Proof. intros a b H. apply andb_true_iff in H. exact H. Qed.
+
+Ltac split_plain H :=
+  repeat match type of H with
+         | _ && _ = true => let H2 := fresh "P" in apply andb_split in H; destruct H as [H H2]
+         end.
+
+Theorem C19_dispatch_then_state : forall ci n, nonempty n = true ->
+  dispatch ci Doc.patterns "then" (doc_text (DEntered n)) = DMatch "state_is_entered" [("name", n)] /\
+  dispatch ci Doc.patterns "then" (doc_text (DNotEntered n)) = DMatch "state_is_not_entered" [("name", n)] /\
+  dispatch ci Doc.patterns "then" (doc_text (DExited n)) = DMatch "state_is_exited" [("name", n)] /\
+  dispatch ci Doc.patterns "then" (doc_text (DNotExited n)) = DMatch "state_is_not_exited" [("name", n)] /\
+  dispatch ci Doc.patterns "then" (doc_text (DActive n)) = DMatch "state_is_active" [("name", n)] /\
+  dispatch ci Doc.patterns "then" (doc_text (DNotActive n)) = DMatch "state_is_not_active" [("name", n)].
+Proof.
+  intros ci n H. apply nonempty_ne in H. idtac.
+  repeat split; destruct ci; skips; hit; rewrite match_lit; apply match_any_lit_end; exact H.
+Qed.
+
+Ltac in_lit := cbn [In]; repeat (first [left; reflexivity | right]).
+
+Lemma contains_char_app : forall ci c a b,
+  contains ci (String c "") (a +++ b) = contains ci (String c "") a || contains ci (String c "") b.
+Proof.
+  induction a as [|x a IH]; intro b; cbn [String.append].
+  - cbn. reflexivity.
+  - cbn [contains strip_prefix]. destruct (ceq ci c x); [reflexivity|]. apply IH.
+Qed.
+
+(* the pattern at the head contains the literal "=", the text does not *)
+Ltac no_eq Hc :=
+  apply dispatch_nomatch; [reflexivity| |];
+  [match goal with
+   | |- match_elems ?ci ?p ?text = None =>
+       let E := fresh "E" in
+       destruct (match_elems ci p text) eqn:E; [exfalso|reflexivity];
+       apply (match_contains ci "=") in E; [|in_lit];
+       repeat rewrite contains_char_app in E; rewrite Hc in E; vm_compute in E; discriminate
+   end|].
+(* the pattern at the head contains the literal lit, the whole text does not (Hc) *)
+Ltac no_lit lit Hc :=
+  apply dispatch_nomatch; [reflexivity| |];
+  [match goal with
+   | |- match_elems ?ci ?p ?text = None =>
+       let E := fresh "E" in
+       destruct (match_elems ci p text) eqn:E; [exfalso|reflexivity];
+       apply (match_contains ci lit) in E; [|in_lit];
+       rewrite Hc in E; discriminate
+   end|].
+
+Lemma negb_true : forall b, negb b = true -> b = false.
+Proof. intros [|] H; [discriminate|reflexivity]. Qed.
+
+Lemma C19_dispatch_actions : forall ci k,
+  dispatch ci Doc.patterns (gw_type k) (doc_text (DNothing k)) = DMatch "do_nothing" [] /\
+  (forall s, nonempty s = true ->
+     dispatch ci Doc.patterns (gw_type k) (doc_text (DReproduce k s)) = DMatch (doc_fn (DReproduce k s)) [("scenario", s)]) /\
+  (forall st n, nonempty st = true -> plain_arg_b ci """ " st = true -> nonempty_all is_digit n = true ->
+     dispatch ci Doc.patterns (gw_type k) (doc_text (DRepeat k st n)) = DMatch (doc_fn (DRepeat k st n)) [("step", st); ("repeat", n)]) /\
+  (forall n p v, nonempty n = true -> plain_arg_b ci " with " n = true -> nonempty p = true -> plain_arg_b ci "=" p = true ->
+     nonempty v = true ->
+     dispatch ci Doc.patterns (gw_type k) (doc_text (DSendWith k n p v)) = DMatch "send_event" [("name", n); ("parameter", p); ("value", v)]) /\
+  (forall s, nonempty_all is_digit s = true ->
+     dispatch ci Doc.patterns (gw_type k) (doc_text (DWait k s true)) = DMatch "wait" [("seconds", s)] /\
+     dispatch ci Doc.patterns (gw_type k) (doc_text (DWait k s false)) = DMatch "wait" [("seconds", s)]).
+Proof.
+  intros ci k. idtac. split; [|split; [|split; [|split]]].
+  - destruct ci, k; skips; hit; reflexivity.
+  - intros s H. apply nonempty_ne in H. destruct ci, k; skips; hit; rewrite match_lit; apply match_any_lit_end; exact H.
+  - intros st n H1 H2 H3. apply nonempty_ne in H1.
+    destruct ci, k; skips; hit; rewrite match_lit; (apply match_any_lit; [exact H1|exact H2|]);
+      (apply match_num_lit_end; [exact H3|left; reflexivity]).
+  - intros n p v H1 H2 H3 H4 H5. apply nonempty_ne in H1. apply nonempty_ne in H3. apply nonempty_ne in H5.
+    destruct ci, k; skips; hit; rewrite match_lit; (apply match_any_lit; [exact H1|exact H2|]);
+      (apply match_any_lit; [exact H3|exact H4|]); apply match_any_last; exact H5.
+  - intros s H. split; destruct ci, k; skips; hit; rewrite match_lit; apply match_num_lit_end; solve [exact H|right; reflexivity].
+Qed.
+
+Lemma C19_dispatch_send : forall ci k n, nonempty n = true -> contains ci "=" n = false ->
+  dispatch ci Doc.patterns (gw_type k) (doc_text (DSend k n)) = DMatch "send_event" [("name", n)].
+Proof.
+  intros ci k n H Hc. apply nonempty_ne in H. idtac.
+  destruct ci, k; skips; no_eq Hc; skips; hit; rewrite match_lit; apply match_any_last; exact H.
+Qed.
+
+Lemma C19_dispatch_events : forall ci n, nonempty n = true ->
+  (forall p v, plain_arg_b ci " is fired with " n = true -> nonempty p = true -> plain_arg_b ci "=" p = true -> nonempty v = true ->
+     dispatch ci Doc.patterns "then" (doc_text (DFiredWith n p v)) = DMatch "event_is_fired" [("name", n); ("parameter", p); ("value", v)]) /\
+  (contains ci "=" n = false ->
+     dispatch ci Doc.patterns "then" (doc_text (DFired n)) = DMatch "event_is_fired" [("name", n)] /\
+     dispatch ci Doc.patterns "then" (doc_text (DNotFired n)) = DMatch "event_is_not_fired" [("name", n)]).
+Proof.
+  intros ci n H. apply nonempty_ne in H. idtac. split.
+  - intros p v H2 H3 H4 H5. apply nonempty_ne in H3. apply nonempty_ne in H5.
+    destruct ci; skips; hit; rewrite match_lit; (apply match_any_lit; [exact H|exact H2|]);
+      (apply match_any_lit; [exact H3|exact H4|]); apply match_any_last; exact H5.
+  - intros Hc. split; destruct ci; skips; no_eq Hc; skips; hit; rewrite match_lit; apply match_any_lit_end; exact H.
+Qed.
+
+Lemma C19_dispatch_literal :
+  forall ci,
+  dispatch ci Doc.patterns "then" (doc_text DNoEvent) = DMatch "no_event_is_fired" [] /\
+  dispatch ci Doc.patterns "then" (doc_text DFinal) = DMatch "final_configuration" [] /\
+  dispatch ci Doc.patterns "then" (doc_text DNotFinal) = DMatch "not_final_configuration" [].
+Proof. intros [|]; vm_compute; auto. Qed.
+
+Lemma C19_dispatch_vars : forall ci x v, nonempty x = true -> nonempty v = true ->
+  (plain_arg_b ci " equals " x = true ->
+     dispatch ci Doc.patterns "then" (doc_text (DVarEq x v)) = DMatch "variable_equals" [("variable", x); ("value", v)]) /\
+  (plain_arg_b ci " does not equal " x = true -> contains ci " equals " (doc_text (DVarNe x v)) = false ->
+     dispatch ci Doc.patterns "then" (doc_text (DVarNe x v)) = DMatch "variable_does_not_equal" [("variable", x); ("value", v)]).
+Proof.
+  intros ci x v H1 H2. apply nonempty_ne in H1. apply nonempty_ne in H2. split.
+  - intro P. destruct ci; skips; hit; rewrite match_lit; (apply match_any_lit; [exact H1|exact P|]);
+      apply match_any_last; exact H2.
+  - intros P Hc. cbn [doc_text] in Hc.
+    destruct ci; skips; no_lit " equals " Hc; skips; hit; rewrite match_lit; (apply match_any_lit; [exact H1|exact P|]);
+      apply match_any_last; exact H2.
+Qed.
+
+(* `expression "x == 2" holds` binds expression to x == 2, WITHOUT the quotes, whatever the expression *)
+Lemma C19_dispatch_expr : forall ci e, nonempty e = true ->
+  dispatch ci Doc.patterns "then" (doc_text (DExpr e)) = DMatch "expression_holds" [("expression", e)] /\
+  dispatch ci Doc.patterns "then" (doc_text (DNotExpr e)) = DMatch "expression_does_not_hold" [("expression", e)].
+Proof.
+  intros ci e H. apply nonempty_ne in H. idtac.
+  split; destruct ci; skips; hit; rewrite match_lit; apply match_any_lit_end; exact H.
+Qed.
+
+(* C19_dispatch: over the documented pattern list (= the list extracted from steps.py, obligation
+   gen_patterns_ok regenerated on every run), the documented spelling of EVERY predefined step with
+   plain arguments is dispatched to the intended step function with exactly the intended arguments,
+   under both matching modes (case sensitive / re.IGNORECASE). *)
+Theorem C19_dispatch : forall ci d, doc_plain ci d = true ->
+  dispatch ci Doc.patterns (doc_type d) (doc_text d) = DMatch (doc_fn d) (doc_args d).
+Proof.
+  intros ci d H. destruct d; cbn [doc_plain doc_type doc_fn doc_args] in *; split_plain H.
+  - apply (C19_dispatch_actions ci k).
+  - apply (C19_dispatch_actions ci k); assumption.
+  - apply (C19_dispatch_actions ci k); assumption.
+  - apply C19_dispatch_send; [assumption|apply negb_true; assumption].
+  - apply (C19_dispatch_actions ci k); assumption.
+  - destruct (C19_dispatch_actions ci k) as (_ & _ & _ & _ & W). destruct (W secs H) as [W1 W2].
+    destruct singular; assumption.
+  - apply (C19_dispatch_then_state ci n H).
+  - apply (C19_dispatch_then_state ci n H).
+  - apply (C19_dispatch_then_state ci n H).
+  - apply (C19_dispatch_then_state ci n H).
+  - apply (C19_dispatch_then_state ci n H).
+  - apply (C19_dispatch_then_state ci n H).
+  - apply (C19_dispatch_events ci n H). apply negb_true; assumption.
+  - apply (C19_dispatch_events ci n H); assumption.
+  - apply (C19_dispatch_events ci n H). apply negb_true; assumption.
+  - apply (C19_dispatch_literal ci).
+  - apply (C19_dispatch_vars ci x v); assumption.
+  - apply (C19_dispatch_vars ci x v); try assumption. apply negb_true; assumption.
+  - apply (C19_dispatch_expr ci e H).
+  - apply (C19_dispatch_expr ci e H).
+  - apply (C19_dispatch_literal ci).
+  - apply (C19_dispatch_literal ci).
+Qed.
+
+(* the past defect, excluded for every expression: the quotes never become part of the expression *)
+Corollary C19_expression_unquoted : forall ci e, nonempty e = true ->
+  step_of_text ci Doc.patterns TyThen ("expression """ +++ e +++ """ holds") [] = Some (SThen (TExprHolds e)) /\
+  step_of_text ci Doc.patterns TyThen ("expression """ +++ e +++ """ does not hold") [] = Some (SThen (TExprNotHolds e)).
+Proof.
+  intros ci e H. unfold step_of_text. destruct (C19_dispatch_expr ci e H) as [H1 H2].
+  unfold doc_text in H1, H2. rewrite H1, H2. split; reflexivity.
+Qed.
+
+(* completeness of the matcher for plain arguments, for arbitrary patterns: s is the pattern p
+   instantiated with args and b the bindings the step function must receive *)
+Inductive plain_for (ci : bool) : pattern -> list string -> string -> list binding -> Prop :=
+| pf_nil : plain_for ci [] [] "" []
+| pf_lit : forall l p args s b, plain_for ci p args s b -> plain_for ci (PLit l :: p) args (l +++ s) b
+| pf_last : forall n a, a <> "" -> plain_for ci [PField n FAny] [a] a [(n, a)]
+| pf_any : forall n l p a args s b, a <> "" -> plain_arg_b ci l a = true -> plain_for ci p args s b ->
+    plain_for ci (PField n FAny :: PLit l :: p) (a :: args) (a +++ l +++ s) ((n, a) :: b)
+| pf_num : forall n t l' p a args s b, nonempty_all is_digit a = true -> (t = FInt \/ t = FNum) ->
+    plain_for ci p args s b ->
+    plain_for ci (PField n t :: PLit (String " " l') :: p) (a :: args) (a +++ String " " l' +++ s) ((n, a) :: b).
+
+Theorem match_complete : forall ci p args s b, plain_for ci p args s b -> match_elems ci p s = Some b.
+Proof.
+  intros ci p args s b H. induction H.
+  - reflexivity.
+  - rewrite match_lit. exact IHplain_for.
+  - apply match_any_last. assumption.
+  - apply match_any_lit; assumption.
+  - apply match_num_lit; assumption.
+Qed.
+
+Example match_complete_nonvacuous :
+  plain_for false [PLit "I send event "; PField "name" FAny; PLit " with "; PField "parameter" FAny; PLit "="; PField "value" FAny]
+            ["floorSelected"; "floor"; "4"] ("I send event " +++ "floorSelected" +++ " with " +++ "floor" +++ "=" +++ "4")
+            [("name", "floorSelected"); ("parameter", "floor"); ("value", "4")] /\
+  "I send event " +++ "floorSelected" +++ " with " +++ "floor" +++ "=" +++ "4" = "I send event floorSelected with floor=4".
+Proof.
+  split; [|reflexivity].
+  apply (pf_lit false "I send event "). apply (pf_any false "name" " with " _ "floorSelected"); [discriminate|reflexivity|].
+  apply (pf_any false "parameter" "=" _ "floor"); [discriminate|reflexivity|]. apply pf_last. discriminate.
+Qed.
+
+Example C19_dispatch_nonvacuous :
+  doc_plain false (DSendWith When "floorSelected" "floor" "4") = true /\
+  doc_plain true (DRepeat Given "I send event tick" "3") = true /\
+  doc_plain false (DVarNe "current" "4") = true /\
+  doc_plain true (DExpr "x == 2 and s == ""a""") = true /\
+  doc_plain false (DNotFired "lamp on") = true.
+Proof. vm_compute. repeat split; reflexivity. Qed.
+
+Print Assumptions C19_testing.
+Print Assumptions C19_given_when.
+Print Assumptions C19_block.
+Print Assumptions C19_skip.
+Print Assumptions C19_verdict.
+Print Assumptions fact_b_sound.
+Print Assumptions C19_dispatch.
+Print Assumptions C19_expression_unquoted.
+Print Assumptions match_complete.
 Print Assumptions doc_samples_ok.
